@@ -57,6 +57,7 @@ const GAMMA64: u64 = 0x9E3779B97F4A7C15;
 // bookkeeping: coverage counters, checks, case emission
 // ------------------------------------------------------------------------------------------------------------------
 thread_local! {
+    static PRINTED: std::cell::Cell<bool> = std::cell::Cell::new(false);
     static COV: RefCell<BTreeMap<&'static str, u64>> = RefCell::new(BTreeMap::new());
     static NCASES: RefCell<(u64, u64)> = RefCell::new((0, 0));
 }
@@ -1172,7 +1173,7 @@ fn ising_same_model<R: Rng>(c: &mut Chk, what: &str, s: &IsingSpec, cutoff: usiz
     }
 }
 fn mode_c01(r: &mut SplitMix64, n: usize) {
-    for i in 0..n {
+    for _ in 0..n {
         let s = gen_ising_spec(r, None);
         let cutoff = r.range(1, 12) as usize;
         let beta = gen_beta(r);
@@ -1292,7 +1293,7 @@ fn mode_c01(r: &mut SplitMix64, n: usize) {
                 c.ck(g.get_cutoff() >= last_cut, || "C12 cutoff decreased".into());
                 last_cut = g.get_cutoff();
             }
-            if i == 0 {
+            if !PRINTED.with(|p| p.replace(true)) {
                 hits(&["QmcIsingGraph::print_debug", "diagonal::debug_print_diagonal"]);
                 c.call("print_debug", || g.print_debug());
                 c.call("debug_print_diagonal", || debug_print_diagonal(g.get_manager_ref(), g.state_ref()));
@@ -1505,7 +1506,9 @@ fn mode_c04(r: &mut SplitMix64, n: usize) {
             c.res(json_same("C15 Qmc::from vs into_qmc", &js(&b), &js(&a), &[]));
             c.eq("C15 state carried", &a.state_ref().to_vec(), &g.state_ref().to_vec());
             c.eq("C15 cutoff carried", &a.get_cutoff(), &g.get_cutoff());
-            c.eq("C15 slots carried", &show_slots(a.get_manager_ref()), &show_slots(g.get_manager_ref()));
+            // (the container of the Ising sampler may still be shorter than the sampler's cutoff: compare the operators)
+            let ops = |m: &FastOps| scan(m).into_iter().flatten().collect::<Vec<_>>();
+            c.eq("C15 operators carried", &ops(a.get_manager_ref()), &ops(g.get_manager_ref()));
             c.res(check_generic(&a));
             a.timestep(beta);
             b.timestep(beta);
@@ -1665,30 +1668,2322 @@ fn mode_c19(r: &mut SplitMix64, n: usize) {
     }
 }
 
+// ------------------------------------------------------------------------------------------------------------------
+// c06 / c08 / c09: trait-level update functions (convenience wrappers and rng variants) against the sampler-level calls
+// ------------------------------------------------------------------------------------------------------------------
+fn rel_check(rel: &str, b: &[Option<SOp>], a: &[Option<SOp>]) -> Result<(), String> {
+    match rel {
+        "diag" => {
+            if offdiag(b) != offdiag(a) {
+                return Err("C06/C08 diagonal sweep changed an off-diagonal operator".into());
+            }
+            if a.len() < b.len() {
+                return Err("C12 diagonal sweep shrank the string".into());
+            }
+        }
+        "spin" => {
+            if skeleton(b) != skeleton(a) || a.len() != b.len() {
+                return Err("C07/C09 spin-only update changed which bonds sit at which positions".into());
+            }
+        }
+        "rvb" => {
+            if occupied(b) != occupied(a) || a.len() != b.len() {
+                return Err("C07 RVB update changed the occupied positions".into());
+            }
+        }
+        _ => {}
+    }
+    Ok(())
+}
+/// run one trait-level call on a manager with the pool oracle around it
+fn pooled<T>(c: &mut Chk, what: &str, m: &mut FastOps, f: impl FnOnce(&mut FastOps) -> T) -> Option<T> {
+    let a0 = alloc_snap(m);
+    pool_begin();
+    let r = c.call(what, || f(m));
+    let pe = pool_end(what);
+    if r.is_some() {
+        c.res(pe);
+        c.ck(alloc_snap(m) == a0, || format!("C18 {}: pool occupancy changed", what));
+    }
+    r
+}
+fn free_spins(m: &FastOps, st: &mut [bool], rng: &mut SplitMix64) {
+    for v in 0..st.len() {
+        if !m.does_var_have_ops(v) {
+            st[v] = rng.gen_bool(0.5);
+        }
+    }
+}
+fn ising_ctx(s: &IsingSpec, g: &G, beta: f64) -> String {
+    format!("{} beta={} cutoff={} rng={} state={} slots={}", spec_token(s), rat(beta), g.get_cutoff(), rng_of(g).s, bits(g.state_ref()), show_slots(g.get_manager_ref()))
+}
+fn ising_hclosure<'a>(ham: &'a IsingHam<'a>) -> impl Fn(&[usize], usize, &[bool], &[bool]) -> f64 + 'a {
+    move |v, b, i, o| ham.hamiltonian(v, b, i, o)
+}
+fn ising_bond_weights(ham: &IsingHam) -> BondWeights {
+    hit("HeatBathDiagonalUpdater::make_bond_weights");
+    <FastOps as HeatBathDiagonalUpdater>::make_bond_weights(ising_hclosure(ham), ham.num_bonds(), |b| ham.edge_fn(b).0)
+}
+
+/// Metropolis diagonal sweep: `single_diagonal_step` = `…_with_rng_and_state_ref` = `…_with_rng` under the same rng state
+fn diff_diag_ising(s: &IsingSpec, g: &G, beta: f64) {
+    let ghost = g.clone();
+    let vars: Vec<usize> = (0..s.nvars).collect();
+    let ham = IsingHam { g: &ghost, vars: &vars };
+    let hv = ising_view(&ghost);
+    let mut c = Chk::new();
+    let (cutoff, st0, rng0) = (g.get_cutoff(), g.clone_state(), rng_of(g));
+    let before = scan(g.get_manager_ref());
+    hits(&["QmcIsingGraph::single_diagonal_step", "DiagonalUpdater::make_diagonal_update_with_rng_and_state_ref", "DiagonalUpdater::make_diagonal_update_with_rng"]);
+    let mut ga = g.clone();
+    let ra = c.call("single_diagonal_step", || ga.single_diagonal_step(beta));
+    let (mut mb, mut sb, mut rb) = (g.get_manager_ref().clone(), st0.clone(), rng0.clone());
+    let rbr = pooled(&mut c, "make_diagonal_update_with_rng_and_state_ref", &mut mb, |m| m.make_diagonal_update_with_rng_and_state_ref(cutoff, beta, &mut sb, &ham, &mut rb));
+    let (mut mc, mut rc) = (g.get_manager_ref().clone(), rng0.clone());
+    let rcr = pooled(&mut c, "make_diagonal_update_with_rng", &mut mc, |m| m.make_diagonal_update_with_rng(cutoff, beta, &st0, &ham, &mut rc));
+    if ra.is_some() && rbr.is_some() && rcr.is_some() {
+        c.eq("C13 slots: single_diagonal_step vs trait-level sweep (state ref)", &show_slots(ga.get_manager_ref()), &show_slots(&mb));
+        c.eq("C13 slots: with_rng vs with_rng_and_state_ref", &show_slots(&mc), &show_slots(&mb));
+        c.eq("C13 rng after: sampler vs trait-level", &rng_of(&ga).s, &rb.s);
+        c.eq("C13 rng after: with_rng vs state_ref", &rc.s, &rb.s);
+        c.eq("C06 state after the sweep (state ref variant returns to the start)", &sb, &st0);
+        c.eq("C06 sampler state after single_diagonal_step", &ga.state_ref().to_vec(), &st0);
+        let n = mb.get_n();
+        c.eq("C12 cutoff after single_diagonal_step = max(cutoff, n + n/2 + 1)", &ga.get_cutoff(), &max(cutoff, n + n / 2 + 1));
+        c.res(rel_check("diag", &before, &scan(&mb)));
+        c.res(check_config(&mb, &st0, &hv));
+        c.res(check_nav(&mb, hv.nbonds));
+        c.res(check_ising(&ga, &ghost));
+    }
+    case(!before.is_empty(), &format!("c06 diag-variants {}", ising_ctx(s, g, beta)), c.done());
+}
+
+/// heat-bath sweep: sampler-level = trait-level variants (= a sweep assembled from `heat_bath_single_diagonal_update`)
+fn diff_heatbath_ising(mode: &str, s: &IsingSpec, g: &G, beta: f64, manual: bool) {
+    let ghost = g.clone();
+    let vars: Vec<usize> = (0..s.nvars).collect();
+    let ham = IsingHam { g: &ghost, vars: &vars };
+    let hv = ising_view(&ghost);
+    let mut c = Chk::new();
+    let (cutoff, st0, rng0) = (g.get_cutoff(), g.clone_state(), rng_of(g));
+    let before = scan(g.get_manager_ref());
+    let bw = ising_bond_weights(&ham);
+    hits(&[
+        "QmcIsingGraph::set_enable_heatbath",
+        "HeatBathDiagonalUpdater::make_heatbath_diagonal_update_with_rng_and_state_ref",
+        "HeatBathDiagonalUpdater::make_heatbath_diagonal_update_with_rng",
+        "BondWeights::serde",
+    ]);
+    let mut ga = g.clone();
+    ga.set_enable_heatbath(true);
+    c.res(json_same("C02 bond weights: set_enable_heatbath vs make_bond_weights", &js(&ga)["bond_weights"], &js(&bw), &[]));
+    // the table itself: per bond the maximal diagonal weight, cumulative sums
+    let jb = js(&bw);
+    let rows = jb["max_weight_and_cumulative"].as_array().cloned().unwrap_or_default();
+    c.eq("C02 bond weight rows", &rows.len(), &hv.nbonds);
+    let mut cum = 0.0;
+    for (b, row) in rows.iter().enumerate() {
+        let (vs, _) = (hv.edge)(b);
+        let mx = patterns(vs.len()).iter().map(|p| (hv.w)(b, p, p)).fold(0.0, f64::max);
+        cum += mx;
+        c.ck(row[0].as_u64() == Some(b as u64) && row[1].as_f64() == Some(mx) && row[2].as_f64() == Some(cum), || {
+            format!("C02/C08 bond weight row {} = {} expected [{}, {}, {}]", b, row, b, mx, cum)
+        });
+    }
+    let ra = c.call("single_diagonal_step (heat bath)", || ga.single_diagonal_step(beta));
+    let (mut mb, mut sb, mut rb) = (g.get_manager_ref().clone(), st0.clone(), rng0.clone());
+    let rbr = pooled(&mut c, "make_heatbath_diagonal_update_with_rng_and_state_ref", &mut mb, |m| {
+        m.make_heatbath_diagonal_update_with_rng_and_state_ref(cutoff, beta, &mut sb, &ham, &bw, &mut rb)
+    });
+    let (mut mc, mut rc) = (g.get_manager_ref().clone(), rng0.clone());
+    let rcr = pooled(&mut c, "make_heatbath_diagonal_update_with_rng", &mut mc, |m| m.make_heatbath_diagonal_update_with_rng(cutoff, beta, &st0, &ham, &bw, &mut rc));
+    if ra.is_some() && rbr.is_some() && rcr.is_some() {
+        c.eq("C13 slots: heat-bath single_diagonal_step vs trait-level sweep", &show_slots(ga.get_manager_ref()), &show_slots(&mb));
+        c.eq("C13 slots: with_rng vs with_rng_and_state_ref", &show_slots(&mc), &show_slots(&mb));
+        c.eq("C13 rng after: sampler vs trait-level", &rng_of(&ga).s, &rb.s);
+        c.eq("C13 rng after: with_rng vs state_ref", &rc.s, &rb.s);
+        c.eq("C06 state after the sweep", &sb, &st0);
+        let n = mb.get_n();
+        c.eq("C12 cutoff after heat-bath single_diagonal_step", &ga.get_cutoff(), &max(cutoff, n + n / 2 + 1));
+        c.res(rel_check("diag", &before, &scan(&mb)));
+        c.res(check_config(&mb, &st0, &hv));
+        c.res(check_nav(&mb, hv.nbonds));
+        c.res(check_ising(&ga, &ghost));
+    }
+    if manual {
+        hits(&["HeatBathDiagonalUpdater::heat_bath_single_diagonal_update", "DiagonalUpdater::mutate_ps"]);
+        let (mut md, mut sd, mut rd) = (g.get_manager_ref().clone(), st0.clone(), rng0.clone());
+        let r = pooled(&mut c, "mutate_ps + heat_bath_single_diagonal_update", &mut md, |m| {
+            m.mutate_ps(0, cutoff, (&mut sd[..], &mut rd), |mm, op, (state, rng)| {
+                let op = <FastOps as HeatBathDiagonalUpdater>::heat_bath_single_diagonal_update(op, cutoff, mm.get_n(), beta, state, (&ham, &bw), rng);
+                (op, (state, rng))
+            });
+        });
+        if r.is_some() && rbr.is_some() {
+            c.eq("C08 sweep assembled from heat_bath_single_diagonal_update vs library sweep: slots", &show_slots(&md), &show_slots(&mb));
+            c.eq("C08 … rng", &rd.s, &rb.s);
+            c.eq("C08 … state", &sd, &sb);
+        }
+    }
+    case(!before.is_empty(), &format!("{} heatbath-variants {}", mode, ising_ctx(s, g, beta)), c.done());
+}
+
+fn long_ops(s: &[Option<SOp>], first_long: usize) -> Vec<SOp> {
+    s.iter().flatten().filter(|o| o.bond >= first_long).cloned().collect()
+}
+/// cluster step: sampler-level = `flip_each_cluster_ising_symmetry_rng` = `flip_each_cluster_rng(None)` (+ free spins)
+fn diff_cluster_ising(s: &IsingSpec, g: &G, beta: f64) {
+    let ghost = g.clone();
+    let hv = ising_view(&ghost);
+    let mut c = Chk::new();
+    let (st0, rng0) = (g.clone_state(), rng_of(g));
+    let before = scan(g.get_manager_ref());
+    let first_long = s.edges.len() + s.nvars;
+    let m0 = g.get_manager_ref();
+    hits(&["ClusterUpdater::find_constant_op", "QmcIsingGraph::single_cluster_step", "ClusterUpdater::flip_each_cluster_rng"]);
+    let fc = before.iter().flatten().find(|o| o.constant && o.vars.len() == 1).map(|o| o.p);
+    c.eq("C09 find_constant_op = first constant single-site op of the scan", &m0.find_constant_op(), &fc);
+    let mut ga = g.clone();
+    let na = c.call("single_cluster_step", || ga.single_cluster_step());
+    let (mut mb, mut sb, mut rb) = (m0.clone(), st0.clone(), rng0.clone());
+    let weighted = s.h.abs() > EPS;
+    let wf = move |node: &FastOpNode| -> f64 {
+        if node.get_op_ref().get_bond() >= first_long {
+            0.0
+        } else {
+            1.0
+        }
+    };
+    let nb = pooled(&mut c, "flip_each_cluster", &mut mb, |m| {
+        if weighted {
+            m.flip_each_cluster_rng(0.5, &mut rb, &mut sb, Some(wf))
+        } else {
+            hit("ClusterUpdater::flip_each_cluster_ising_symmetry_rng");
+            m.flip_each_cluster_ising_symmetry_rng(0.5, &mut rb, &mut sb)
+        }
+    });
+    if let (Some(na), Some(nb)) = (na, nb) {
+        c.res(rel_check("spin", &before, &scan(&mb)));
+        c.res(check_config(&mb, &sb, &hv));
+        free_spins(&mb, &mut sb, &mut rb);
+        c.eq("C09 number of clusters: sampler vs trait-level", &na, &nb);
+        c.eq("C13 slots: single_cluster_step vs trait-level", &show_slots(ga.get_manager_ref()), &show_slots(&mb));
+        c.eq("C13 state: single_cluster_step vs trait-level + free spins", &ga.state_ref().to_vec(), &sb);
+        c.eq("C13 rng after", &rng_of(&ga).s, &rb.s);
+        c.res(check_config(&mb, &sb, &hv));
+        c.res(check_nav(&mb, hv.nbonds));
+        c.res(check_ising(&ga, &ghost));
+        c.eq("C09 longitudinal-field operators untouched by the cluster step", &long_ops(&scan(&mb), first_long), &long_ops(&before, first_long));
+        // the decomposition of the result has the same number of clusters
+        let (mut m2, mut s2, mut r2) = (mb.clone(), sb.clone(), SplitMix64::new(1));
+        let n2 = c.call("second decomposition", || m2.flip_each_cluster_ising_symmetry_rng(0.0, &mut r2, &mut s2));
+        if let Some(n2) = n2 {
+            c.eq("C09 the decomposition of the result finds the same number of clusters", &n2, &nb);
+            c.eq("C09 probability 0 flips nothing", &show_slots(&m2), &show_slots(&mb));
+        }
+        if !weighted {
+            let (mut mc, mut sc, mut rc) = (m0.clone(), st0.clone(), rng0.clone());
+            let nc = pooled(&mut c, "flip_each_cluster_rng(None)", &mut mc, |m| m.flip_each_cluster_rng(0.5, &mut rc, &mut sc, None::<fn(&FastOpNode) -> f64>));
+            free_spins(&mc, &mut sc, &mut rc);
+            c.eq("C09 flip_each_cluster_rng(None) vs ising_symmetry: clusters", &nc, &Some(nb));
+            c.eq("C13 flip_each_cluster_rng(None) vs ising_symmetry: slots", &show_slots(&mc), &show_slots(&mb));
+            c.eq("C13 … state", &sc, &sb);
+            c.eq("C13 … rng", &rc.s, &rb.s);
+        }
+    }
+    case(!before.is_empty(), &format!("c09 cluster-variants {}", ising_ctx(s, g, beta)), c.done());
+}
+
+/// RVB sweep: `single_rvb_sweep(Some(k))` = `rvb_update` / `rvb_update_with_ising_weight` with an own `EdgeNavigator`
+fn diff_rvb_ising(s: &IsingSpec, g: &G, beta: f64, k: usize) {
+    let ghost = g.clone();
+    let vars: Vec<usize> = (0..s.nvars).collect();
+    let ham = IsingHam { g: &ghost, vars: &vars };
+    let hv = ising_view(&ghost);
+    let nav = nav_of(&ghost);
+    let mut c = Chk::new();
+    let (st0, rng0) = (g.clone_state(), rng_of(g));
+    let before = scan(g.get_manager_ref());
+    let first_long = s.edges.len() + s.nvars;
+    let weighted = s.h.abs() > EPS;
+    hits(&["QmcIsingGraph::single_rvb_sweep", "RvbUpdater::rvb_update_with_ising_weight", "EdgeNavigator::other_var_for_bond"]);
+    let eh = |b: usize, sa: bool, sb: bool| {
+        let (va, vb) = (nav.edges[b].0[0], nav.edges[b].0[1]);
+        ham.hamiltonian(&[va, vb], b, &[sa, sb], &[sa, sb])
+    };
+    let mut ga = g.clone();
+    let ra = c.call("single_rvb_sweep", || ga.single_rvb_sweep(Some(k)));
+    let (mut mb, mut sb, mut rb) = (g.get_manager_ref().clone(), st0.clone(), rng0.clone());
+    let nb = pooled(&mut c, "rvb_update", &mut mb, |m| {
+        if weighted {
+            m.rvb_update_with_ising_weight(&nav, &mut sb, k, eh, |op: &FastOp| if op.get_bond() >= first_long { 0.0 } else { 1.0 }, &mut rb)
+        } else {
+            hit("RvbUpdater::rvb_update");
+            m.rvb_update(&nav, &mut sb, k, eh, &mut rb)
+        }
+    });
+    if let (Some((succ, att)), Some(nb)) = (ra, nb) {
+        c.eq("C03 attempts", &att, &k);
+        c.eq("C03 successes: sampler vs trait-level", &succ, &nb);
+        c.eq("C13 slots: single_rvb_sweep vs trait-level rvb update", &show_slots(ga.get_manager_ref()), &show_slots(&mb));
+        c.eq("C13 state", &ga.state_ref().to_vec(), &sb);
+        c.eq("C13 rng after", &rng_of(&ga).s, &rb.s);
+        c.res(rel_check("rvb", &before, &scan(&mb)));
+        c.res(check_config(&mb, &sb, &hv));
+        c.res(check_nav(&mb, hv.nbonds));
+        c.res(check_ising(&ga, &ghost));
+        c.eq("C03 longitudinal-field operators untouched by the RVB update", &long_ops(&scan(&mb), first_long), &long_ops(&before, first_long));
+        if !weighted {
+            let (mut mc, mut sc, mut rc) = (g.get_manager_ref().clone(), st0.clone(), rng0.clone());
+            let nc = pooled(&mut c, "rvb_update_with_ising_weight(|_| 1)", &mut mc, |m| m.rvb_update_with_ising_weight(&nav, &mut sc, k, eh, |_| 1.0, &mut rc));
+            c.eq("C03 rvb_update vs rvb_update_with_ising_weight(1): successes", &nc, &Some(nb));
+            c.eq("C13 … slots", &show_slots(&mc), &show_slots(&mb));
+            c.eq("C13 … state", &sc, &sb);
+            c.eq("C13 … rng", &rc.s, &rb.s);
+        }
+        // other_var_for_bond: the provided method of the navigator
+        for (b, (e, _)) in nav.edges.iter().enumerate() {
+            c.ck(nav.other_var_for_bond(e[0], b) == Some(e[1]) && nav.other_var_for_bond(e[1], b) == Some(e[0]), || format!("other_var_for_bond on bond {}", b));
+            for v in 0..s.nvars {
+                if v != e[0] && v != e[1] {
+                    c.ck(nav.other_var_for_bond(v, b).is_none(), || format!("other_var_for_bond({}, {}) must be None", v, b));
+                }
+            }
+        }
+    }
+    let _ = qmc::sse::qmc_traits::rvb::verif_hooks::take_trace();
+    case(!before.is_empty(), &format!("c06 rvb-variants k={} {}", k, ising_ctx(s, g, beta)), c.done());
+}
+
+/// thread_rng convenience wrappers applied IN PLACE through `get_manager_mut` / `state_mut`; the sampler must stay
+/// consistent and continue to work
+fn inplace_ising(r: &mut SplitMix64, s: &IsingSpec, g: &mut G, beta: f64, rounds: usize) {
+    let ghost = g.clone();
+    let vars: Vec<usize> = (0..s.nvars).collect();
+    let ham = IsingHam { g: &ghost, vars: &vars };
+    let bw = ising_bond_weights(&ham);
+    for _ in 0..rounds {
+        let which = r.below(4);
+        let mut c = Chk::new();
+        let before = scan(g.get_manager_ref());
+        let st = g.clone_state();
+        let cutoff = g.get_cutoff();
+        let n0 = g.get_n();
+        let ctx = ising_ctx(s, g, beta);
+        let a0 = alloc_snap(g.get_manager_ref());
+        hits(&["QmcIsingGraph::get_manager_mut", "QmcIsingGraph::state_mut"]);
+        pool_begin();
+        let (name, rel) = match which {
+            0 => {
+                hit("DiagonalUpdater::make_diagonal_update");
+                c.call("make_diagonal_update", || g.get_manager_mut().make_diagonal_update(cutoff, beta, &st, &ham));
+                ("make_diagonal_update", "diag")
+            }
+            1 => {
+                hit("HeatBathDiagonalUpdater::make_heatbath_diagonal_update");
+                c.call("make_heatbath_diagonal_update", || g.get_manager_mut().make_heatbath_diagonal_update(cutoff, beta, &st, &ham, &bw));
+                ("make_heatbath_diagonal_update", "diag")
+            }
+            _ => {
+                hit("LoopUpdater::make_loop_update");
+                let init = if which == 2 || n0 == 0 { None } else { Some(r.below(n0 as u64) as usize) };
+                let mut s2 = st.clone();
+                c.call("make_loop_update", || g.get_manager_mut().make_loop_update(init, ising_hclosure(&ham), &mut s2));
+                *g.state_mut() = s2;
+                (if init.is_some() { "make_loop_update(Some)" } else { "make_loop_update(None)" }, "spin")
+            }
+        };
+        c.res(pool_end(name));
+        c.ck(alloc_snap(g.get_manager_ref()) == a0, || format!("C18 {}: pool occupancy changed", name));
+        if c.errs.is_empty() {
+            c.res(rel_check(rel, &before, &scan(g.get_manager_ref())));
+            c.res(check_ising(g, &ghost));
+            // the sampler continues
+            let cut = g.get_cutoff();
+            if c.call("timestep after the in-place update", || {
+                g.timestep(beta);
+            })
+            .is_some()
+            {
+                c.res(check_ising(g, &ghost));
+                c.res(cutoff_rule(g.get_cutoff(), g.get_n()));
+                c.ck(g.get_cutoff() >= cut, || "C12 cutoff decreased".into());
+            }
+        }
+        let failed = !c.errs.is_empty();
+        case(!before.is_empty(), &format!("c06 inplace {} {}", name, ctx), c.done());
+        if failed {
+            return;
+        }
+    }
+}
+
+fn gen_hclosure<'a>(bonds: &'a [Interaction]) -> impl Fn(&[usize], usize, &[bool], &[bool]) -> f64 + 'a + Copy {
+    move |_v, b, i, o| bonds[b].at(i, o).unwrap()
+}
+fn generic_ctx(gs: &GenSpec, q: &Q, beta: f64) -> String {
+    format!(
+        "kind={} {} loops={} hb={} beta={} cutoff={} rng={} state={} slots={}",
+        gs.kind,
+        terms_token(gs.nvars, &gs.terms),
+        gs.loops,
+        gs.heatbath,
+        rat(beta),
+        q.get_cutoff(),
+        rng_of(q).s,
+        bits(q.state_ref()),
+        show_slots(q.get_manager_ref())
+    )
+}
+/// generic sampler: every sampler-level update = the trait-level function on a copy of its manager under the same rng state;
+/// thread_rng wrappers keep every invariant
+fn diff_generic(mode: &str, r: &mut SplitMix64, gs: &GenSpec, q: &Q, beta: f64, manual: bool) {
+    let vars = generic_vars(q.get_bonds());
+    let table = generic_table(q.get_bonds(), &vars);
+    let ham = GenHam { bonds: q.get_bonds(), table: &table };
+    let hv = generic_view(q.get_bonds(), &table);
+    let h = gen_hclosure(q.get_bonds());
+    let (cutoff, st0, rng0) = (q.get_cutoff(), q.clone_state(), rng_of(q));
+    let before = scan(q.get_manager_ref());
+    let m0 = q.get_manager_ref();
+    let ctx = generic_ctx(gs, q, beta);
+    let bw = <FastOps as HeatBathDiagonalUpdater>::make_bond_weights(h, ham.num_bonds(), |b| ham.edge_fn(b).0);
+    // diagonal
+    {
+        let mut c = Chk::new();
+        let mut qa = q.clone();
+        let ra = c.call("Qmc::diagonal_update", || qa.diagonal_update(beta));
+        let (mut mb, mut sb, mut rb) = (m0.clone(), st0.clone(), rng0.clone());
+        let rbr = pooled(&mut c, "trait-level diagonal sweep", &mut mb, |m| {
+            if gs.heatbath {
+                m.make_heatbath_diagonal_update_with_rng_and_state_ref(cutoff, beta, &mut sb, &ham, &bw, &mut rb)
+            } else {
+                m.make_diagonal_update_with_rng_and_state_ref(cutoff, beta, &mut sb, &ham, &mut rb)
+            }
+        });
+        let (mut mc, mut rc) = (m0.clone(), rng0.clone());
+        let rcr = pooled(&mut c, "trait-level diagonal sweep (with_rng)", &mut mc, |m| {
+            if gs.heatbath {
+                hit("HeatBathDiagonalUpdater::make_heatbath_diagonal_update_with_rng");
+                m.make_heatbath_diagonal_update_with_rng(cutoff, beta, &st0, &ham, &bw, &mut rc)
+            } else {
+                hit("DiagonalUpdater::make_diagonal_update_with_rng");
+                m.make_diagonal_update_with_rng(cutoff, beta, &st0, &ham, &mut rc)
+            }
+        });
+        if ra.is_some() && rbr.is_some() && rcr.is_some() {
+            c.eq("C13 slots: Qmc::diagonal_update vs trait-level sweep", &show_slots(qa.get_manager_ref()), &show_slots(&mb));
+            c.eq("C13 slots: with_rng vs state_ref", &show_slots(&mc), &show_slots(&mb));
+            c.eq("C13 rng: sampler vs trait-level", &rng_of(&qa).s, &rb.s);
+            c.eq("C13 rng: with_rng vs state_ref", &rc.s, &rb.s);
+            c.eq("C06 state after the sweep", &sb, &st0);
+            let n = mb.get_n();
+            c.eq("C12 cutoff after Qmc::diagonal_update", &qa.get_cutoff(), &max(cutoff, n + n / 2 + 1));
+            if gs.heatbath {
+                c.res(json_same("C02 cached bond weights vs make_bond_weights", &js(&qa)["bond_weights"], &js(&bw), &[]));
+            }
+            c.res(rel_check("diag", &before, &scan(&mb)));
+            c.res(check_config(&mb, &st0, &hv));
+            c.res(check_nav(&mb, hv.nbonds));
+            c.res(check_generic(&qa));
+        }
+        if manual {
+            hit("HeatBathDiagonalUpdater::heat_bath_single_diagonal_update");
+            let (mut mh, mut sh, mut rh) = (m0.clone(), st0.clone(), rng0.clone());
+            let lib = pooled(&mut c, "heat-bath sweep", &mut mh, |m| m.make_heatbath_diagonal_update_with_rng_and_state_ref(cutoff, beta, &mut sh, &ham, &bw, &mut rh));
+            let (mut md, mut sd, mut rd) = (m0.clone(), st0.clone(), rng0.clone());
+            let man = pooled(&mut c, "mutate_ps + heat_bath_single_diagonal_update", &mut md, |m| {
+                m.mutate_ps(0, cutoff, (&mut sd[..], &mut rd), |mm, op, (state, rng)| {
+                    let op = <FastOps as HeatBathDiagonalUpdater>::heat_bath_single_diagonal_update(op, cutoff, mm.get_n(), beta, state, (&ham, &bw), rng);
+                    (op, (state, rng))
+                });
+            });
+            if lib.is_some() && man.is_some() {
+                c.eq("C08 sweep assembled from heat_bath_single_diagonal_update vs library sweep: slots", &show_slots(&md), &show_slots(&mh));
+                c.eq("C08 … rng", &rd.s, &rh.s);
+                c.eq("C08 … state", &sd, &sh);
+                c.res(rel_check("diag", &before, &scan(&mh)));
+                c.res(check_config(&mh, &st0, &hv));
+            }
+        }
+        case(!before.is_empty(), &format!("{} generic-diag-variants {}", mode, ctx), c.done());
+    }
+    if manual {
+        return;
+    }
+    // loop
+    {
+        let mut c = Chk::new();
+        let mut qa = q.clone();
+        let ra = c.call("Qmc::loop_update", || qa.loop_update());
+        let (mut mb, mut sb, mut rb) = (m0.clone(), st0.clone(), rng0.clone());
+        let rbr = pooled(&mut c, "make_loop_update_with_rng(None)", &mut mb, |m| m.make_loop_update_with_rng(None, h, &mut sb, &mut rb));
+        if ra.is_some() && rbr.is_some() {
+            c.eq("C13 slots: Qmc::loop_update vs trait-level", &show_slots(qa.get_manager_ref()), &show_slots(&mb));
+            c.eq("C13 state", &qa.state_ref().to_vec(), &sb);
+            c.eq("C13 rng", &rng_of(&qa).s, &rb.s);
+            c.res(rel_check("spin", &before, &scan(&mb)));
+            c.res(check_config(&mb, &sb, &hv));
+            c.res(check_nav(&mb, hv.nbonds));
+        }
+        // a loop started at the k-th op
+        let n0 = m0.get_n();
+        if n0 > 0 {
+            let k = r.below(n0 as u64) as usize;
+            let (mut mc, mut sc, mut rc) = (m0.clone(), st0.clone(), rng0.clone());
+            if pooled(&mut c, "make_loop_update_with_rng(Some(k))", &mut mc, |m| m.make_loop_update_with_rng(Some(k), h, &mut sc, &mut rc)).is_some() {
+                c.res(rel_check("spin", &before, &scan(&mc)));
+                c.res(check_config(&mc, &sc, &hv));
+            }
+        }
+        // thread_rng wrappers: invariants only
+        for which in 0..3 {
+            let (mut mc, mut sc) = (m0.clone(), st0.clone());
+            let (name, rel): (&'static str, &str) = match which {
+                0 => ("LoopUpdater::make_loop_update", "spin"),
+                1 => ("DiagonalUpdater::make_diagonal_update", "diag"),
+                _ => ("HeatBathDiagonalUpdater::make_heatbath_diagonal_update", "diag"),
+            };
+            hit(name);
+            let ok = pooled(&mut c, name, &mut mc, |m| match which {
+                0 => m.make_loop_update(None, h, &mut sc),
+                1 => m.make_diagonal_update(cutoff, beta, &st0, &ham),
+                _ => m.make_heatbath_diagonal_update(cutoff, beta, &st0, &ham, &bw),
+            });
+            if ok.is_some() {
+                c.res(rel_check(rel, &before, &scan(&mc)).map_err(|e| format!("{}: {}", name, e)));
+                c.res(check_config(&mc, &sc, &hv).map_err(|e| format!("{}: {}", name, e)));
+                c.res(check_nav(&mc, hv.nbonds).map_err(|e| format!("{}: {}", name, e)));
+            }
+        }
+        case(!before.is_empty(), &format!("{} generic-loop-variants {}", mode, ctx), c.done());
+    }
+    // cluster + free spins
+    {
+        let mut c = Chk::new();
+        let mut qa = q.clone();
+        let can = q.should_do_cluster_update();
+        let ra = c.call("Qmc::cluster_update", || qa.cluster_update().map_err(|e| e.to_string()));
+        let (mut mb, mut sb, mut rb) = (m0.clone(), st0.clone(), rng0.clone());
+        if let Some(ra) = ra {
+            let sym = q.get_bonds().iter().all(|b| b.sym_under_ising());
+            c.eq("C09 cluster_update is refused exactly for symmetry-breaking models", &ra.is_ok(), &sym);
+            if ra.is_ok() {
+                let nb = pooled(&mut c, "flip_each_cluster_ising_symmetry_rng", &mut mb, |m| m.flip_each_cluster_ising_symmetry_rng(0.5, &mut rb, &mut sb));
+                if nb.is_some() {
+                    c.eq("C13 slots: Qmc::cluster_update vs trait-level", &show_slots(qa.get_manager_ref()), &show_slots(&mb));
+                    c.eq("C13 state", &qa.state_ref().to_vec(), &sb);
+                    c.eq("C13 rng", &rng_of(&qa).s, &rb.s);
+                    c.res(rel_check("spin", &before, &scan(&mb)));
+                    c.res(check_config(&mb, &sb, &hv));
+                    let fc = before.iter().flatten().find(|o| o.constant && o.vars.len() == 1).map(|o| o.p);
+                    c.eq("C09 find_constant_op", &m0.find_constant_op(), &fc);
+                }
+            }
+        }
+        let _ = can;
+        let mut qf = q.clone();
+        if c.call("flip_free_bits", || qf.flip_free_bits()).is_some() {
+            let (mut sf, mut rf) = (st0.clone(), rng0.clone());
+            free_spins(m0, &mut sf, &mut rf);
+            c.eq("C13 flip_free_bits vs manual refresh: state", &qf.state_ref().to_vec(), &sf);
+            c.eq("C13 flip_free_bits rng", &rng_of(&qf).s, &rf.s);
+            c.res(check_generic(&qf));
+        }
+        case(!before.is_empty(), &format!("{} generic-cluster-variants {}", mode, ctx), c.done());
+    }
+}
+
+fn mode_c06(r: &mut SplitMix64, n: usize) {
+    for _ in 0..n {
+        let (s, mut g, beta) = warm_ising(r, None);
+        diff_diag_ising(&s, &g, beta);
+        diff_heatbath_ising("c06", &s, &g, beta, false);
+        let k = r.range(1, 4) as usize;
+        diff_rvb_ising(&s, &g, beta, k);
+        inplace_ising(r, &s, &mut g, beta, 3);
+    }
+    for _ in 0..n {
+        let (gs, q, beta) = warm_generic(r);
+        diff_generic("c06", r, &gs, &q, beta, false);
+    }
+}
+fn mode_c08(r: &mut SplitMix64, n: usize) {
+    for _ in 0..n {
+        let (s, g, beta) = warm_ising(r, None);
+        diff_heatbath_ising("c08", &s, &g, beta, true);
+        let (gs, q, beta) = warm_generic(r);
+        diff_generic("c08", r, &gs, &q, beta, true);
+    }
+}
+fn mode_c09(r: &mut SplitMix64, n: usize) {
+    hit("cluster::is_valid_cluster_edge");
+    let mut c = Chk::new();
+    for constant in [false, true] {
+        for nv in 0..5 {
+            c.eq("C09 is_valid_cluster_edge = constant and single-site", &is_valid_cluster_edge(constant, nv), &(constant && nv == 1));
+        }
+    }
+    case(true, "c09 is_valid_cluster_edge all", c.done());
+    for _ in 0..n {
+        let with_h = r.coin();
+        let (s, g, beta) = warm_ising(r, Some(with_h));
+        diff_cluster_ising(&s, &g, beta);
+    }
+}
+
+// ------------------------------------------------------------------------------------------------------------------
+// c07: the `Op` trait surface of the stored operator type, small value types
+// ------------------------------------------------------------------------------------------------------------------
+type SubSt = smallvec::SmallVec<[bool; 2]>;
+fn xor(a: &[bool], m: &[bool]) -> Vec<bool> {
+    a.iter().zip(m.iter()).map(|(x, y)| x ^ y).collect()
+}
+fn value_type_checks<T>(c: &mut Chk, what: &str, x: &T, other: Option<&T>)
+where
+    T: Clone + PartialEq + std::fmt::Debug + serde::Serialize + serde::de::DeserializeOwned,
+{
+    let cl = x.clone();
+    c.ck(cl == *x, || format!("{}: clone != original", what));
+    c.ck(js(&cl) == js(x), || format!("{}: clone serialises differently", what));
+    c.ck(format!("{:?}", cl) == format!("{:?}", x) && !format!("{:?}", x).is_empty(), || format!("{}: Debug of clone differs", what));
+    match json_rt(x) {
+        Ok(rt) => c.ck(rt == *x && js(&rt) == js(x), || format!("C14 {}: serde round trip {:?} -> {} -> {:?}", what, x, js(x), rt)),
+        Err(e) => c.ck(false, || format!("C14 {}: {}", what, e)),
+    }
+    if let Some(o) = other {
+        c.ck((o == x) == (js(o) == js(x)), || format!("{}: eq({:?}, {:?}) = {} disagrees with the snapshots", what, x, o, o == x));
+    }
+}
+fn mode_c07(r: &mut SplitMix64, n: usize) {
+    for _ in 0..n {
+        let k = r.range(1, 3) as usize;
+        let mut pool: Vec<usize> = (0..6).collect();
+        let mut vars = vec![];
+        for _ in 0..k {
+            vars.push(pool.remove(r.below(pool.len() as u64) as usize));
+        }
+        let bond = r.below(9) as usize;
+        let ins: Vec<bool> = (0..k).map(|_| r.coin()).collect();
+        let mut outs: Vec<bool> = (0..k).map(|_| r.coin()).collect();
+        if outs == ins {
+            outs[0] = !outs[0];
+        }
+        let constant = r.coin();
+        let mi: Vec<bool> = (0..k).map(|_| r.coin()).collect();
+        let mo: Vec<bool> = if r.coin() { mi.clone() } else { (0..k).map(|_| r.coin()).collect() };
+        let input = format!("c07 op vars={} bond={} ins={} outs={} const={} editmask={}/{}", list(&vars), bond, bits(&ins), bits(&outs), constant, bits(&mi), bits(&mo));
+        let mut c = Chk::new();
+        hits(&["Op::diagonal", "Op::offdiagonal", "Op::make_vars", "Op::make_substate", "Op::index_of_var", "Op::clone_inputs", "Op::clone_outputs"]);
+        let d = FastOp::diagonal(vars.clone(), bond, ins.clone(), constant);
+        let o = FastOp::offdiagonal(vars.clone(), bond, ins.clone(), outs.clone(), constant);
+        for (name, op, ei, eo) in [("diagonal", &d, &ins, &ins), ("offdiagonal", &o, &ins, &outs)] {
+            c.eq(&format!("{} get_vars", name), &op.get_vars().to_vec(), &vars);
+            c.eq(&format!("{} get_bond", name), &op.get_bond(), &bond);
+            c.eq(&format!("{} get_inputs", name), &op.get_inputs().to_vec(), ei);
+            c.eq(&format!("{} get_outputs", name), &op.get_outputs().to_vec(), eo);
+            c.eq(&format!("{} clone_inputs", name), &op.clone_inputs().to_vec(), ei);
+            c.eq(&format!("{} clone_outputs", name), &op.clone_outputs().to_vec(), eo);
+            c.eq(&format!("C07 {} is_diagonal", name), &op.is_diagonal(), &(ei == eo));
+            c.eq(&format!("{} is_constant", name), &op.is_constant(), &constant);
+            for v in 0..7 {
+                c.eq(&format!("{} index_of_var({})", name, v), &op.index_of_var(v), &vars.iter().position(|x| *x == v));
+            }
+        }
+        c.eq("make_vars", &FastOp::make_vars(vars.iter().cloned()).to_vec(), &vars);
+        c.eq("make_substate", &FastOp::make_substate(ins.iter().cloned()).to_vec(), &ins);
+        hits(&["Op::clone_and_edit_in_out", "Op::edit_in_out", "Op::clone_and_edit_in_out_symmetric", "Op::edit_in_out_symmetric"]);
+        let flip = |s: &mut [bool], m: &[bool]| s.iter_mut().zip(m.iter()).for_each(|(b, f)| *b ^= *f);
+        for (name, op, bi, bo) in [("diagonal", &d, &ins, &ins), ("offdiagonal", &o, &ins, &outs)] {
+            let (ei, eo) = (xor(bi, &mi), xor(bo, &mo));
+            let x = op.clone_and_edit_in_out(|i, o| {
+                flip(i, &mi);
+                flip(o, &mo);
+            });
+            let mut y = op.clone();
+            y.edit_in_out(|i, o| {
+                flip(i, &mi);
+                flip(o, &mo);
+            });
+            for (how, z) in [("clone_and_edit_in_out", &x), ("edit_in_out", &y)] {
+                c.eq(&format!("{} {} inputs", how, name), &z.get_inputs().to_vec(), &ei);
+                c.eq(&format!("{} {} outputs", how, name), &z.get_outputs().to_vec(), &eo);
+                c.eq(&format!("C07 {} {}: diagonal tag agrees with the recorded values", how, name), &z.is_diagonal(), &(ei == eo));
+                c.eq(&format!("{} {} vars", how, name), &z.get_vars().to_vec(), &vars);
+                c.eq(&format!("{} {} bond", how, name), &z.get_bond(), &bond);
+                c.eq(&format!("{} {} constant", how, name), &z.is_constant(), &constant);
+            }
+            c.ck(x == y, || format!("{}: edit_in_out and clone_and_edit_in_out disagree: {:?} vs {:?}", name, y, x));
+            // the same edit again restores the op exactly
+            let back = x.clone_and_edit_in_out(|i, o| {
+                flip(i, &mi);
+                flip(o, &mo);
+            });
+            c.ck(back == *op, || format!("{}: editing twice does not restore {:?}: {:?}", name, op, back));
+            // symmetric edits
+            let (si, so) = (xor(bi, &mi), xor(bo, &mi));
+            let xs = op.clone_and_edit_in_out_symmetric(|s| flip(s, &mi));
+            let mut ys = op.clone();
+            ys.edit_in_out_symmetric(|s| flip(s, &mi));
+            for (how, z) in [("clone_and_edit_in_out_symmetric", &xs), ("edit_in_out_symmetric", &ys)] {
+                c.eq(&format!("{} {} inputs", how, name), &z.get_inputs().to_vec(), &si);
+                c.eq(&format!("{} {} outputs", how, name), &z.get_outputs().to_vec(), &so);
+                c.eq(&format!("C07 {} {} keeps the diagonal tag", how, name), &z.is_diagonal(), &op.is_diagonal());
+                c.eq(&format!("{} {} vars/bond/constant", how, name), &(z.get_vars().to_vec(), z.get_bond(), z.is_constant()), &(vars.clone(), bond, constant));
+            }
+            c.ck(xs == ys, || format!("{}: symmetric edit variants disagree", name));
+        }
+        hits(&["BasicOp::clone", "BasicOp::eq", "BasicOp::fmt", "BasicOp::serde", "OpType::clone", "OpType::eq", "OpType::fmt", "OpType::serde"]);
+        value_type_checks(&mut c, "BasicOp(diagonal)", &d, Some(&o));
+        value_type_checks(&mut c, "BasicOp(offdiagonal)", &o, Some(&d));
+        // an op written with `offdiagonal` although it changes nothing (the crate's own tests write constant ops like this):
+        // copies and snapshots must give back exactly this op (same variant, hence same `is_diagonal()`)
+        let oo = FastOp::offdiagonal(vars.clone(), bond, ins.clone(), ins.clone(), constant);
+        value_type_checks(&mut c, "BasicOp(offdiagonal with equal values)", &oo, Some(&d));
+        if let Ok(rt) = json_rt(&oo) {
+            c.eq("C14 is_diagonal() of a restored offdiagonal-with-equal-values op", &rt.is_diagonal(), &oo.is_diagonal());
+        }
+        let too: OpType<SubSt> = OpType::Offdiagonal(ins.iter().cloned().collect(), ins.iter().cloned().collect());
+        value_type_checks(&mut c, "OpType::Offdiagonal(s, s)", &too, None);
+        let other_bond = FastOp::diagonal(vars.clone(), bond + 1, ins.clone(), constant);
+        let other_const = FastOp::diagonal(vars.clone(), bond, ins.clone(), !constant);
+        c.ck(d != other_bond && d != other_const && d != o, || "BasicOp::eq ignores bond / constant / values".into());
+        c.ck(format!("{:?}", d).contains("BasicOp") && format!("{:?}", d).contains("Diagonal"), || "BasicOp Debug".into());
+        let td: OpType<SubSt> = OpType::Diagonal(ins.iter().cloned().collect());
+        let to: OpType<SubSt> = OpType::Offdiagonal(ins.iter().cloned().collect(), outs.iter().cloned().collect());
+        value_type_checks(&mut c, "OpType::Diagonal", &td, Some(&to));
+        value_type_checks(&mut c, "OpType::Offdiagonal", &to, Some(&td));
+        c.ck(td != to, || "OpType::eq".into());
+        hits(&["OpSide::clone", "OpSide::eq", "OpSide::fmt", "OpSide::serde", "OpSide::reverse"]);
+        value_type_checks(&mut c, "OpSide", &OpSide::Inputs, Some(&OpSide::Outputs));
+        value_type_checks(&mut c, "OpSide", &OpSide::Outputs, Some(&OpSide::Inputs));
+        c.ck(OpSide::Inputs.reverse() == OpSide::Outputs && OpSide::Outputs.reverse() == OpSide::Inputs && OpSide::Inputs != OpSide::Outputs, || "OpSide::reverse".into());
+        hits(&["PRel::from", "PRel::clone", "PRel::eq", "PRel::fmt", "PRel::serde"]);
+        let pr = PRel::from((bond, k));
+        c.ck(pr.p == bond && pr.relv == k && pr == PRel { p: bond, relv: k }, || "PRel::from".into());
+        value_type_checks(&mut c, "PRel", &pr, Some(&PRel { p: bond, relv: k + 1 }));
+        value_type_checks(&mut c, "PRel", &pr, Some(&PRel { p: bond + 1, relv: k }));
+        c.ck(js(&pr)["p"].as_u64() == Some(bond as u64) && js(&pr)["relv"].as_u64() == Some(k as u64), || format!("PRel snapshot {}", js(&pr)));
+        hits(&["VarPos::default", "VarPos::clone", "VarPos::fmt", "VarPos_into::from"]);
+        let vp = VarPos::default();
+        let vp2 = vp;
+        c.ck(usize::from(vp2) == 0 && format!("{:?}", vp.clone()).contains("VarPos"), || "VarPos default / Debug".into());
+        case(true, &input, c.done());
+    }
+}
+
+// ------------------------------------------------------------------------------------------------------------------
+// c11: accessors of the optimised container = scan; the naive container drives the generic sampler
+// ------------------------------------------------------------------------------------------------------------------
+fn accessor_checks(r: &mut SplitMix64, c: &mut Chk, m: &mut FastOps, state: &[bool], nbonds: usize) {
+    let s = scan(m);
+    let occ = occupied(&s);
+    let nvars = m.get_nvars();
+    c.res(check_nav(m, nbonds));
+    hits(&["RvbUpdater::constant_ops_on_var", "RvbUpdater::spin_flips_on_var"]);
+    for v in 0..nvars {
+        let mut ps = vec![777usize];
+        m.constant_ops_on_var(v, &mut ps);
+        let mut e = vec![777usize];
+        e.extend(s.iter().flatten().filter(|o| o.constant && o.vars.contains(&v)).map(|o| o.p));
+        c.eq(&format!("C11 constant_ops_on_var({})", v), &ps, &e);
+        let mut ps = vec![777usize];
+        m.spin_flips_on_var(v, &mut ps);
+        let mut e = vec![777usize];
+        e.extend(s.iter().flatten().filter(|o| o.vars.iter().position(|x| *x == v).map(|k| o.ins[k] != o.outs[k]).unwrap_or(false)).map(|o| o.p));
+        c.eq(&format!("C11 spin_flips_on_var({})", v), &ps, &e);
+    }
+    hits(&["DebugOps::count_diagonal_and_off", "DebugOps::count_constant_ops", "ClusterUpdater::find_constant_op"]);
+    let nd = s.iter().flatten().filter(|o| o.ins == o.outs).count();
+    c.eq("C11 count_diagonal_and_off", &DebugOps::count_diagonal_and_off(m), &(nd, occ.len() - nd));
+    c.eq("C11 count_constant_ops", &DebugOps::count_constant_ops(m), &s.iter().flatten().filter(|o| o.constant).count());
+    c.eq("C09 find_constant_op", &m.find_constant_op(), &s.iter().flatten().find(|o| o.constant && o.vars.len() == 1).map(|o| o.p));
+    // nodes: get_op / get_op_mut / get_node_mut
+    hits(&["LoopUpdater::get_node_mut", "OpNode::get_op", "OpNode::get_op_mut", "FastOpNodeTemplate::clone", "FastOpNodeTemplate::fmt", "FastOpNodeTemplate::serde"]);
+    let j0 = js(m);
+    for p in 0..s.len() {
+        match (m.get_node_mut(p), &s[p]) {
+            (None, None) => {}
+            (Some(node), Some(o)) => {
+                c.ck(sop(p, &node.get_op()) == *o, || format!("C11 get_op at {}", p));
+                node.get_op_mut().edit_in_out_symmetric(|st| st.iter_mut().for_each(|b| *b = !*b));
+                let flipped = sop(p, node.get_op_ref());
+                c.ck(flipped.ins == xor(&o.ins, &vec![true; o.ins.len()]) && flipped.diag == o.diag, || format!("get_op_mut edit at {}", p));
+                node.get_op_mut().edit_in_out_symmetric(|st| st.iter_mut().for_each(|b| *b = !*b));
+                let node = m.get_node_ref(p).unwrap();
+                let cl = node.clone();
+                c.ck(js(&cl) == js(node) && format!("{:?}", cl) == format!("{:?}", node), || format!("FastOpNode clone at {}", p));
+                match json_rt(node) {
+                    Ok(rt) => c.ck(js(&rt) == js(node), || format!("C14 FastOpNode serde at {}", p)),
+                    Err(e) => c.ck(false, || e),
+                }
+            }
+            (a, b) => c.ck(false, || format!("C11 get_node_mut({}) is_some = {} but slot occupied = {}", p, a.is_some(), b.is_some())),
+        }
+    }
+    c.ck(js(m) == j0, || "get_node_mut round trip changed the container".into());
+    // get_propagated_substate_with_hint
+    if let Ok((entering, _)) = propagate(&s, state) {
+        hit("DiagonalSubsection::get_propagated_substate_with_hint");
+        for _ in 0..6 {
+            if s.is_empty() {
+                break;
+            }
+            let p = r.below(s.len() as u64) as usize;
+            let vars: Vec<usize> = (0..nvars).filter(|_| r.coin()).collect();
+            let hints: Vec<Option<usize>> = vars
+                .iter()
+                .map(|v| {
+                    let on: Vec<usize> = s.iter().flatten().filter(|o| o.vars.contains(v)).map(|o| o.p).collect();
+                    if on.is_empty() || r.coin() {
+                        None
+                    } else {
+                        Some(*r.pick(&on))
+                    }
+                })
+                .collect();
+            let mut sub: Vec<bool> = vars.iter().map(|v| state[*v]).collect();
+            let e: Vec<bool> = vars.iter().map(|v| entering[p][*v]).collect();
+            if c.call("get_propagated_substate_with_hint", || m.get_propagated_substate_with_hint(p, &mut sub, state, &vars, hints.iter().cloned())).is_some() {
+                c.eq(&format!("C11/C06 get_propagated_substate_with_hint(p={}, vars={:?}, hints={:?})", p, vars, hints), &sub, &e);
+            }
+        }
+    }
+    // iter_ops_above_p
+    hit("DiagonalSubsection::iter_ops_above_p");
+    for _ in 0..4 {
+        if s.is_empty() {
+            break;
+        }
+        let p = r.below(s.len() as u64) as usize;
+        let got = m.iter_ops_above_p(
+            p,
+            Vec::<(usize, bool)>::new(),
+            |q, _node, mut t| {
+                t.push((q, false));
+                (t, true)
+            },
+            |_node, mut t| {
+                t.push((usize::MAX, true));
+                (t, true)
+            },
+        );
+        let mut e: Vec<(usize, bool)> = vec![];
+        if s[p].is_some() {
+            e.push((usize::MAX, true));
+        }
+        e.extend(occ.iter().rev().filter(|q| **q < p).map(|q| (*q, false)));
+        c.eq(&format!("C11 iter_ops_above_p({})", p), &got, &e);
+        let first_only = m.iter_ops_above_p(
+            p,
+            Vec::<(usize, bool)>::new(),
+            |q, _node, mut t| {
+                t.push((q, false));
+                (t, false)
+            },
+            |_node, mut t| {
+                t.push((usize::MAX, true));
+                (t, false)
+            },
+        );
+        c.eq(&format!("C11 iter_ops_above_p({}) stops when told", p), &first_only, &e.iter().take(1).cloned().collect::<Vec<_>>());
+    }
+    // MutateArgs accessors, pool balance of get_empty_args / return_args
+    hits(&["MutateArgs::n_subvars", "MutateArgs::subvar_to_var", "MutateArgs::var_to_subvar", "FastOpMutateArgs::fmt", "SubvarAccess::fmt"]);
+    let a0 = alloc_snap(m);
+    pool_begin();
+    let all = m.get_empty_args(SubvarAccess::All);
+    c.eq("MutateArgs(All) n_subvars", &all.n_subvars(), &nvars);
+    for v in 0..nvars {
+        c.ck(all.subvar_to_var(v) == v && all.var_to_subvar(v) == Some(v), || format!("MutateArgs(All) maps {}", v));
+    }
+    c.ck(format!("{:?}", all).contains("FastOpMutateArgs"), || "FastOpMutateArgs Debug".into());
+    m.return_args(all);
+    let sub: Vec<usize> = (0..nvars).filter(|_| r.coin()).collect();
+    c.ck(format!("{:?}", SubvarAccess::<FastOpMutateArgs>::Varlist(&sub)).contains("Varlist"), || "SubvarAccess Debug".into());
+    let va = m.get_empty_args(SubvarAccess::Varlist(&sub));
+    let va = m.get_empty_args(SubvarAccess::Args(va));
+    c.eq("MutateArgs(Varlist) n_subvars", &va.n_subvars(), &sub.len());
+    for (i, v) in sub.iter().enumerate() {
+        c.ck(va.subvar_to_var(i) == *v, || format!("MutateArgs(Varlist) subvar_to_var({})", i));
+    }
+    for v in 0..nvars {
+        c.eq(&format!("MutateArgs(Varlist) var_to_subvar({})", v), &va.var_to_subvar(v), &sub.iter().position(|x| *x == v));
+    }
+    m.return_args(va);
+    c.res(pool_end("get_empty_args/return_args"));
+    c.ck(alloc_snap(m) == a0, || "C18 get_empty_args/return_args changed the pool occupancy".into());
+    // sub-variable mutation through the public `DiagonalSubsection` API: remove the diagonal ops living on a subset of the
+    // variables inside a window, put them back; args prepared by `fill_args_at_p` or by `fill_args_at_p_with_hint`
+    hits(&["DiagonalSubsection::get_empty_args", "DiagonalSubsection::fill_args_at_p", "DiagonalSubsection::fill_args_at_p_with_hint", "DiagonalSubsection::mutate_subsection"]);
+    for _ in 0..4 {
+        if s.is_empty() || nvars == 0 {
+            break;
+        }
+        let mut sub: Vec<usize> = (0..nvars).filter(|_| r.coin()).collect();
+        if sub.is_empty() {
+            sub.push(r.below(nvars as u64) as usize);
+        }
+        let pstart = r.below(s.len() as u64) as usize;
+        let pend = pstart + r.below((s.len() - pstart) as u64 + 1) as usize;
+        let victims: Vec<usize> = (pstart..pend).filter(|p| s[*p].as_ref().map(|o| o.ins == o.outs && o.vars.iter().all(|v| sub.contains(v))).unwrap_or(false)).collect();
+        let originals: BTreeMap<usize, FastOp> = victims.iter().map(|p| (*p, m.get_pth(*p).unwrap().clone())).collect();
+        let use_hint = r.coin();
+        let hints: Vec<Option<usize>> = sub
+            .iter()
+            .map(|v| {
+                let on: Vec<usize> = s.iter().flatten().filter(|o| o.vars.contains(v)).map(|o| o.p).collect();
+                if on.is_empty() || r.coin() {
+                    None
+                } else {
+                    Some(*r.pick(&on))
+                }
+            })
+            .collect();
+        let what = format!("window {}..{} vars {:?} {}", pstart, pend, sub, if use_hint { format!("hints {:?}", hints) } else { "fill_args_at_p".into() });
+        let j0 = js(m);
+        let a0 = alloc_snap(m);
+        for pass in 0..2 {
+            // documented boundary of the NON-hint fill (design_notes/C11.md, F-C11-a): with no op on any listed variable
+            // it leaves `last_p = None` even if other ops precede the window; such a cursor is outside the API's domain
+            let boundary = !sub.iter().any(|v| m.does_var_have_ops(*v)) && (0..pstart).any(|p| m.get_pth(p).is_some());
+            if boundary && !use_hint {
+                stat("c11.varlist_nohint_boundary_avoided", 1);
+            }
+            let use_hint = use_hint || boundary;
+            pool_begin();
+            let ok = c.call(&format!("sub-variable mutation ({})", what), || {
+                let mut args = m.get_empty_args(SubvarAccess::Varlist(&sub));
+                let args = if use_hint {
+                    // (a hint must point to an op that is there: the removed ones are no hints for the second pass)
+                    let hs: Vec<Option<usize>> = hints.iter().map(|h| h.filter(|p| pass == 0 || !victims.contains(p))).collect();
+                    m.fill_args_at_p_with_hint(pstart, &mut args, &sub, hs.into_iter());
+                    args
+                } else {
+                    m.fill_args_at_p(pstart, args)
+                };
+                m.mutate_subsection(
+                    pstart,
+                    pend,
+                    pstart,
+                    |_, _op, p| {
+                        let act = if victims.contains(&p) {
+                            if pass == 0 {
+                                Some(None)
+                            } else {
+                                Some(Some(originals[&p].clone()))
+                            }
+                        } else {
+                            None
+                        };
+                        (act, p + 1)
+                    },
+                    Some(args),
+                );
+            });
+            if ok.is_none() {
+                return;
+            }
+            c.res(pool_end("sub-variable mutation"));
+            c.ck(alloc_snap(m) == a0, || "C18 sub-variable mutation changed the pool occupancy".into());
+            let mut e = s.clone();
+            if pass == 0 {
+                victims.iter().for_each(|p| e[*p] = None);
+            }
+            c.eq(&format!("C11 slots after pass {} of the sub-variable mutation ({})", pass, what), &scan(m), &e);
+            c.res(check_nav(m, nbonds).map_err(|x| format!("after pass {} of the sub-variable mutation ({}): {}", pass, what, x)));
+            c.ck(m.verify(state), || "C06 removing / re-inserting diagonal ops broke the world lines".into());
+        }
+        c.res(json_same(&format!("C11 container after removing and re-inserting ops ({})", what), &j0, &js(m), &[]));
+        if !c.errs.is_empty() {
+            return;
+        }
+    }
+    // rebuild from the operator list: no per-bond counters, same answers
+    hits(&["FastOpsTemplate::new_from_ops", "FastOpsTemplate::clone", "FastOpsTemplate::serde", "FastOpsTemplate::fmt", "OpContainer::itime_fold"]);
+    let ops: Vec<(usize, FastOp)> = (0..s.len()).filter_map(|p| m.get_pth(p).map(|o| (p, o.clone()))).collect();
+    if let Some(mut rebuilt) = c.call("new_from_ops", || FastOps::new_from_ops(nvars, ops.clone())) {
+        rebuilt.set_cutoff(s.len());
+        c.eq("C11 new_from_ops holds the same operators", &scan(&rebuilt), &s);
+        c.res(check_nav(&rebuilt, nbonds).map_err(|e| format!("rebuilt by new_from_ops: {}", e)));
+        c.ck(rebuilt.verify(state), || "C06 rebuilt container does not verify".into());
+    }
+    let cl = m.clone();
+    c.res(json_same("C13 FastOps clone", &js(m), &js(&cl), &[]));
+    c.ck(format!("{:?}", cl) == format!("{:?}", m), || "FastOps Debug of clone".into());
+    match json_rt(m) {
+        Ok(rt) => {
+            c.res(json_same("C14 FastOps serde round trip", &js(m), &js(&rt), &[]));
+            c.res(check_nav(&rt, nbonds).map_err(|e| format!("restored container: {}", e)));
+        }
+        Err(e) => c.ck(false, || e),
+    }
+    if let Ok((entering, _)) = propagate(&s, state) {
+        let mut st = state.to_vec();
+        let fold = m.itime_fold(
+            &mut st,
+            |mut acc: Vec<Vec<bool>>, x: &[bool]| {
+                acc.push(x.to_vec());
+                acc
+            },
+            vec![],
+        );
+        c.eq("C17 itime_fold states", &fold, &entering);
+    }
+}
+fn mode_c11(r: &mut SplitMix64, n: usize) {
+    // constructors of the container
+    {
+        let mut c = Chk::new();
+        hits(&["OpContainerConstructor::new_with_bonds", "OpContainerConstructor::new"]);
+        for nv in 0..4 {
+            for nb in 0..4 {
+                let a = <FastOps as OpContainerConstructor>::new_with_bonds(nv, nb);
+                c.res(json_same("new_with_bonds vs new_from_nvars_and_nbonds", &js(&FastOps::new_from_nvars_and_nbonds(nv, Some(nb))), &js(&a), &[]));
+                c.eq("new_with_bonds bond counters", &js(&a)["bond_counters"].as_array().map(|x| x.len()), &Some(nb));
+                c.ck(a.get_nvars() == nv && a.get_n() == 0 && a.get_cutoff() == 0 && a.get_first_p().is_none() && a.get_last_p().is_none(), || "empty container getters".into());
+            }
+            let b = <FastOps as OpContainerConstructor>::new(nv);
+            c.res(json_same("new vs new_from_nvars", &js(&FastOps::new_from_nvars(nv)), &js(&b), &[]));
+            c.ck(js(&b)["bond_counters"].is_null(), || "new(nvars) must not allocate bond counters".into());
+        }
+        case(true, "c11 container-constructors", c.done());
+    }
+    for _ in 0..n {
+        let mut c = Chk::new();
+        let input;
+        if r.coin() {
+            let (s, g, beta) = warm_ising(r, None);
+            input = format!("c11 accessors {}", ising_ctx(&s, &g, beta));
+            let mut m = g.get_manager_ref().clone();
+            accessor_checks(r, &mut c, &mut m, g.state_ref(), ising_nbonds(&g));
+            hits(&["QmcDebug::get_debug_manager", "QmcDebug::count_diagonal_and_off", "QmcDebug::count_constant_ops"]);
+            let sc = scan(g.get_manager_ref());
+            let nd = sc.iter().flatten().filter(|o| o.ins == o.outs).count();
+            c.eq("C11 QmcDebug::count_diagonal_and_off", &QmcDebug::count_diagonal_and_off(&g), &(nd, occupied(&sc).len() - nd));
+            c.eq("C11 QmcDebug::count_constant_ops", &QmcDebug::count_constant_ops(&g), &sc.iter().flatten().filter(|o| o.constant).count());
+            c.ck(std::ptr::eq(g.get_debug_manager(), g.get_manager_ref()), || "get_debug_manager is not the sampler's manager".into());
+            case(g.get_n() > 0, &input, c.done());
+        } else {
+            let (gs, q, beta) = warm_generic(r);
+            input = format!("c11 accessors {}", generic_ctx(&gs, &q, beta));
+            let mut m = q.get_manager_ref().clone();
+            accessor_checks(r, &mut c, &mut m, q.state_ref(), gs.terms.len());
+            case(q.get_manager_ref().get_n() > 0, &input, c.done());
+        }
+    }
+    // the naive container under the generic sampler
+    for _ in 0..n {
+        let gs = gen_generic_spec(r);
+        let st = gen_state(r, gs.nvars);
+        let seed = r.next();
+        let beta = gen_beta(r);
+        let steps = r.range(2, 8) as usize;
+        let input = format!(
+            "c11 naive-container kind={} {} loops={} hb={} state={} beta={} seed={} steps={}",
+            gs.kind,
+            terms_token(gs.nvars, &gs.terms),
+            gs.loops,
+            gs.heatbath,
+            bits(&st),
+            rat(beta),
+            seed,
+            steps
+        );
+        let mut c = Chk::new();
+        let mut qf = build_generic(&gs, st.clone(), seed);
+        let mut qn: Qmc<SplitMix64, NaiveOps> = Qmc::new_with_state(gs.nvars, SplitMix64::new(seed), st.clone(), gs.loops);
+        c.res(add_terms(&mut qn, &gs.terms));
+        qn.set_do_heatbath(gs.heatbath);
+        let vars = generic_vars(qf.get_bonds());
+        let bonds = qf.get_bonds().to_vec();
+        let table = generic_table(&bonds, &vars);
+        let hv = generic_view(&bonds, &table);
+        let mut nt = false;
+        hits(&[
+            "DiagonalUpdater::mutate_ops",
+            "DiagonalUpdater::try_iterate_ops",
+            "DiagonalUpdater::post_diagonal_update_hook",
+            "LoopUpdater::post_loop_update_hook",
+            "ClusterUpdater::post_cluster_update_hook",
+        ]);
+        for step in 0..steps {
+            let rf = c.call("timestep on FastOps", || {
+                qf.timestep(beta);
+            });
+            let rn = c.call("timestep on the naive container", || {
+                qn.timestep(beta);
+            });
+            if rf.is_none() || rn.is_none() {
+                break;
+            }
+            let (mf, mn) = (qf.get_manager_ref(), qn.get_manager_ref());
+            let ops_f: Vec<SOp> = scan(mf).into_iter().flatten().collect();
+            let ops_n: Vec<SOp> = scan(mn).into_iter().flatten().collect();
+            nt |= !ops_f.is_empty();
+            c.eq(&format!("C11 step {}: operators on FastOps vs naive slot array", step, ), &ops_f, &ops_n);
+            c.eq(&format!("C11 step {}: state", step), &qf.state_ref().to_vec(), &qn.state_ref().to_vec());
+            c.eq(&format!("C11/C12 step {}: cutoff", step), &qf.get_cutoff(), &qn.get_cutoff());
+            c.eq(&format!("C11 step {}: n", step), &QmcStepper::get_n(&qf), &QmcStepper::get_n(&qn));
+            c.res(check_config(mn, qn.state_ref(), &hv).map_err(|e| format!("naive container: {}", e)));
+            c.res(check_nav(mn, hv.nbonds).map_err(|e| format!("naive container: {}", e)));
+            c.eq("C18 naive container: buffers borrowed = returned", &mn.gets, &mn.rets);
+            // provided iteration methods on the naive container against the scan
+            let cnt = mn.iterate_ops(0, mn.get_cutoff(), 0usize, |_, _, _, k| k + 1);
+            let cnt2 = mn.iterate_ps(0, mn.get_cutoff(), 0usize, |_, op, k| k + op.is_some() as usize);
+            c.ck(cnt == ops_n.len() && cnt2 == ops_n.len(), || "default iterate_ops / iterate_ps on the naive container".into());
+            if !c.errs.is_empty() {
+                break;
+            }
+        }
+        let hk = qn.get_manager_ref().hooks;
+        stat("naive.hook_diag", hk[0]);
+        stat("naive.hook_loop", hk[1]);
+        stat("naive.hook_cluster", hk[2]);
+        stat("naive.dirty_returns", qn.get_manager_ref().dirty_returns);
+        if !gs.heatbath {
+            c.eq("post_diagonal_update_hook runs once per Metropolis sweep", &hk[0], &steps);
+        }
+        if gs.loops {
+            c.eq("post_loop_update_hook runs once per loop update", &hk[1], &steps);
+        }
+        // manual default mutate_ops / try_iterate_ops over a sub-range (exclusive end, as documented by the defaults)
+        let mn = qn.get_manager_ref();
+        let len = mn.get_cutoff();
+        if len > 0 {
+            let (a, b) = {
+                let x = r.below(len as u64 + 1) as usize;
+                let y = r.below(len as u64 + 1) as usize;
+                (x.min(y), x.max(y))
+            };
+            let seen = mn.try_iterate_ops(a, b, vec![], |_, op, p, mut acc: Vec<(usize, usize)>| -> Result<_, ()> {
+                acc.push((p, op.get_bond()));
+                Ok(acc)
+            });
+            // the default passes a position counter that starts at 0 for the sub-range
+            let e: Vec<(usize, usize)> = (a..b).filter_map(|p| mn.get_pth(p).map(|o| (p - a, o.get_bond()))).collect();
+            c.eq(&format!("default try_iterate_ops({}, {})", a, b), &seen, &Ok(e));
+        }
+        case(nt, &input, c.done());
+    }
+}
+/// witness (not part of `all`): the provided `LoopUpdater::get_nth_p` has no wrap-around, `make_loop_update(Some(n))` asks
+/// for the n-th of n ops; FastOps answers with op 0 (n % n), a container inheriting the default panics
+/// witness (not part of `all`): with ONE replica the serial `tempering_step` returns before touching the container rng, the
+/// thread-parallel `parallel_tempering_step` draws the order coin; results are equal, the container rng is not
+fn mode_partemp1() {
+    let mut c = Chk::new();
+    let mk = || {
+        let mut t: TC = TemperingContainer::new(SplitMix64::new(5));
+        t.add_qmc_stepper(G::new_with_rng(vec![((0, 1), 1.0)], 1.0, 0.0, 4, SplitMix64::new(9), None), 1.0).unwrap();
+        t
+    };
+    let (mut a, mut b) = (mk(), mk());
+    a.timesteps(2);
+    b.parallel_timesteps(2);
+    a.tempering_step();
+    b.parallel_tempering_step();
+    c.res(json_same("[single replica: parallel_tempering_step draws from the container rng, tempering_step does not] serial vs parallel container", &js(&a), &js(&b), &["graph_ham_eq_a", "graph_ham_eq_b"]));
+    case(true, "partemp1 one replica: tempering_step vs parallel_tempering_step", c.done());
+}
+fn mode_nthwit() {
+    let mut c = Chk::new();
+    let mk = |_p: usize| FastOp::diagonal(vec![0usize], 0, vec![false], true);
+    let mut nv = <NaiveOps as OpContainerConstructor>::new(1);
+    nv.mutate_ps(0, 3, (), |_, _, t| (Some(Some(mk(0))), t));
+    let mut fo = FastOps::new_from_ops(1, (0..3).map(|p| (p, mk(p))));
+    let h = |_: &[usize], _: usize, _: &[bool], _: &[bool]| 1.0;
+    let (mut s1, mut s2) = (vec![false], vec![false]);
+    let rf = catch(|| fo.make_loop_update_with_rng(Some(3), h, &mut s1, &mut SplitMix64::new(1)));
+    let rn = catch(|| nv.make_loop_update_with_rng(Some(3), h, &mut s2, &mut SplitMix64::new(1)));
+    c.ck(rf.is_ok(), || format!("FastOps: {:?}", rf));
+    c.ck(rn.is_ok(), || format!("[F26: default get_nth_p walks off the end for make_loop_update(Some(n)) with n ops] naive container: {:?}", rn));
+    case(true, "nthwit make_loop_update_with_rng(Some(3)) on 3 constant single-site ops", c.done());
+}
+
+// ------------------------------------------------------------------------------------------------------------------
+// c12: cutoff API
+// ------------------------------------------------------------------------------------------------------------------
+fn mode_c12(r: &mut SplitMix64, n: usize) {
+    for _ in 0..n {
+        // Ising: raw setters upwards (downwards leaves the documented domain), copies keep the cutoff, the rule afterwards
+        let (s, mut g, beta) = warm_ising(r, None);
+        let ghost = g.clone();
+        let cut0 = g.get_cutoff();
+        let target = cut0 + r.below(12) as usize;
+        let by_trait = r.coin();
+        let input = format!("c12 ising set_cutoff {} via_trait={} {}", target, by_trait, ising_ctx(&s, &g, beta));
+        let mut c = Chk::new();
+        let before = scan(g.get_manager_ref());
+        hits(&["QmcIsingGraph::set_cutoff", "SwapManagers::set_op_cutoff", "SwapManagers::get_op_cutoff", "QmcIsingGraph::get_cutoff"]);
+        let mut twin = g.clone();
+        if by_trait {
+            SwapManagers::set_op_cutoff(&mut g, target);
+            twin.set_cutoff(target);
+        } else {
+            g.set_cutoff(target);
+            SwapManagers::set_op_cutoff(&mut twin, target);
+        }
+        c.res(json_same("set_op_cutoff vs set_cutoff", &js(&g), &js(&twin), &[]));
+        c.eq("C12 reported cutoff after the setter", &g.get_cutoff(), &target);
+        c.eq("C10 get_op_cutoff = get_cutoff", &SwapManagers::get_op_cutoff(&g), &g.get_cutoff());
+        c.ck(g.get_manager_ref().get_cutoff() >= target, || "C12 container shorter than the cutoff after the setter".into());
+        c.eq("C12 operators untouched by the setter", &scan(g.get_manager_ref()).into_iter().flatten().collect::<Vec<_>>(), &before.into_iter().flatten().collect::<Vec<_>>());
+        let cl = g.clone();
+        c.eq("C12/C13 clone keeps the cutoff", &cl.get_cutoff(), &target);
+        c.eq("C12/C13 clone keeps the container length", &cl.get_manager_ref().get_cutoff(), &g.get_manager_ref().get_cutoff());
+        let sg: SerializeQmcGraph<FastOps> = g.clone().into();
+        let back = sg.into_qmc(rng_of(&g));
+        c.eq("C12/C14 rng-less snapshot keeps the cutoff", &back.get_cutoff(), &target);
+        match json_rt(&g) {
+            Ok(rt) => c.eq("C12/C14 serde keeps the cutoff", &rt.get_cutoff(), &target),
+            Err(e) => c.ck(false, || e),
+        }
+        let mut last = target;
+        for _ in 0..3 {
+            if c.call("timestep", || {
+                g.timestep(beta);
+            })
+            .is_none()
+            {
+                break;
+            }
+            c.ck(g.get_cutoff() >= last, || format!("C12 cutoff decreased {} -> {}", last, g.get_cutoff()));
+            last = g.get_cutoff();
+            c.res(cutoff_rule(g.get_cutoff(), g.get_n()));
+            c.res(check_ising(&g, &ghost));
+        }
+        case(target > cut0, &input, c.done());
+
+        // generic: increase_cutoff_to below / equal / above, set_cutoff upwards, copies
+        let (gs, mut q, beta) = warm_generic(r);
+        let cut0 = q.get_cutoff();
+        let target = match r.below(3) {
+            0 => r.below(cut0 as u64 + 1) as usize,
+            1 => cut0,
+            _ => cut0 + 1 + r.below(10) as usize,
+        };
+        let input = format!("c12 generic increase_cutoff_to {} {}", target, generic_ctx(&gs, &q, beta));
+        let mut c = Chk::new();
+        hits(&["Qmc::increase_cutoff_to", "Qmc::set_cutoff", "Qmc::get_cutoff", "Qmc::clone"]);
+        let before: Vec<SOp> = scan(q.get_manager_ref()).into_iter().flatten().collect();
+        q.increase_cutoff_to(target);
+        c.eq("C12 increase_cutoff_to(c) reports max(old, c)", &q.get_cutoff(), &max(cut0, target));
+        c.ck(q.get_manager_ref().get_cutoff() >= q.get_cutoff(), || "C12 container shorter than the cutoff".into());
+        c.eq("C10 get_op_cutoff = get_cutoff", &SwapManagers::get_op_cutoff(&q), &q.get_cutoff());
+        let up = q.get_cutoff() + r.below(6) as usize;
+        let mut twin = q.clone();
+        q.set_cutoff(up);
+        SwapManagers::set_op_cutoff(&mut twin, up);
+        c.res(json_same("set_op_cutoff vs set_cutoff", &js(&q), &js(&twin), &[]));
+        c.eq("C12 reported cutoff after set_cutoff", &q.get_cutoff(), &up);
+        c.eq("C12 operators untouched", &scan(q.get_manager_ref()).into_iter().flatten().collect::<Vec<_>>(), &before);
+        let mut cl = q.clone();
+        c.eq("C12/C13 clone keeps the cutoff", &cl.get_cutoff(), &up);
+        c.eq("C12/C13 clone keeps the container length", &cl.get_manager_ref().get_cutoff(), &q.get_manager_ref().get_cutoff());
+        let mut last = up;
+        for _ in 0..3 {
+            if c.call("timestep", || {
+                q.timestep(beta);
+                cl.timestep(beta);
+            })
+            .is_none()
+            {
+                break;
+            }
+            c.ck(q.get_cutoff() >= last, || format!("C12 cutoff decreased {} -> {}", last, q.get_cutoff()));
+            last = q.get_cutoff();
+            c.res(cutoff_rule(q.get_cutoff(), QmcStepper::get_n(&q)));
+            c.res(check_generic(&q));
+            c.res(json_same("C13 clone in lockstep", &js(&q), &js(&cl), &[]));
+        }
+        case(true, &input, c.done());
+    }
+}
+
+// ------------------------------------------------------------------------------------------------------------------
+// c10: trait-level tempering helpers, container helpers
+// ------------------------------------------------------------------------------------------------------------------
+fn close(a: f64, b: f64) -> bool {
+    a == b || (a - b).abs() <= 1e-9 * a.abs().max(b.abs())
+}
+/// W_other(C_self) / W_self(C_self) recomputed from the operator string with the public matrix elements
+fn ratio_from_ops(m: &FastOps, w_other: &dyn Fn(&SOp) -> f64, w_self: &dyn Fn(&SOp) -> f64) -> f64 {
+    let mut t = 1.0;
+    for op in scan(m).iter().flatten() {
+        let (a, b) = (w_other(op), w_self(op));
+        if a == 0.0 {
+            return 0.0;
+        }
+        t *= a / b;
+    }
+    t
+}
+fn ising_w<'a>(g: &'a G) -> impl Fn(&SOp) -> f64 + 'a {
+    move |op| G::hamiltonian(&g.make_haminfo(), &op.vars, op.bond, &op.ins, &op.outs)
+}
+fn same_except_config(what: &str, orig: &Value, now: &Value) -> Result<(), String> {
+    json_same(what, orig, now, &["state", "op_manager", "manager", "cutoff"])
+}
+fn mode_c10(r: &mut SplitMix64, n: usize) {
+    for _ in 0..n {
+        // ---- a pair of Ising replicas
+        let s = gen_ising_spec(r, None);
+        let s2 = if r.chance(1, 4) { s.clone() } else { scale_spec(r, &s) };
+        let (ba, bb) = (gen_beta(r), gen_beta(r));
+        let mut ga = build_ising(&s, r.range(1, 10) as usize, Some(gen_state(r, s.nvars)), r.next());
+        let mut gb = build_ising(&s2, r.range(1, 10) as usize, Some(gen_state(r, s.nvars)), r.next());
+        for _ in 0..r.range(1, 5) {
+            ga.timestep(ba);
+            gb.timestep(bb);
+        }
+        let input = format!("c10 ising-pair A={} B={} betas={},{} | A: {} | B: {}", spec_token(&s), spec_token(&s2), rat(ba), rat(bb), ising_ctx(&s, &ga, ba), ising_ctx(&s2, &gb, bb));
+        let mut c = Chk::new();
+        hits(&[
+            "GraphWeights::relative_weight",
+            "OpWeights::relative_weight_for_hamiltonians",
+            "GraphWeights::ham_eq",
+            "SwapManagers::can_swap_graphs",
+            "QmcIsingGraph::can_swap_managers",
+            "StateGetter::get_state_ref",
+            "SwapManagers::swap_graphs",
+            "QmcIsingGraph::swap_manager_and_state",
+        ]);
+        for (x, y, nx, ny) in [(&ga, &gb, "A", "B"), (&gb, &ga, "B", "A")] {
+            let e = ratio_from_ops(x.get_manager_ref(), &ising_w(y), &ising_w(x));
+            if let Some(got) = c.call("relative_weight", || x.relative_weight(y)) {
+                c.ck(close(got, e), || format!("C10 {}.relative_weight({}) = {} but W_{}(C_{})/W_{}(C_{}) from the operator string = {}", nx, ny, got, ny, nx, nx, nx, e));
+            }
+            let (hy, hx) = (
+                |v: &[usize], b: usize, i: &[bool], o: &[bool]| G::hamiltonian(&y.make_haminfo(), v, b, i, o),
+                |v: &[usize], b: usize, i: &[bool], o: &[bool]| G::hamiltonian(&x.make_haminfo(), v, b, i, o),
+            );
+            if let Some(got) = c.call("relative_weight_for_hamiltonians", || x.get_manager_ref().relative_weight_for_hamiltonians(hy, hx)) {
+                c.ck(close(got, e), || format!("C10 manager of {}: relative_weight_for_hamiltonians(H_{}, H_{}) = {} expected {}", nx, ny, nx, got, e));
+            }
+            c.ck(close(x.get_manager_ref().relative_weight_for_hamiltonians(hx, hx), 1.0), || "relative_weight_for_hamiltonians(H, H) != 1".into());
+            c.eq(&format!("StateGetter::get_state_ref of {}", nx), &StateGetter::get_state_ref(x).to_vec(), &x.state_ref().to_vec());
+            c.eq(&format!("C10 get_op_cutoff of {}", nx), &SwapManagers::get_op_cutoff(x), &x.get_cutoff());
+        }
+        let same_model = s.edges == s2.edges && s.gamma == s2.gamma && s.h == s2.h;
+        c.eq("C10 ham_eq(A, B) = all parameters equal", &ga.ham_eq(&gb), &same_model);
+        c.eq("C10 ham_eq symmetric", &gb.ham_eq(&ga), &same_model);
+        c.ck(ga.ham_eq(&ga), || "ham_eq not reflexive".into());
+        c.eq("can_swap_graphs = can_swap_managers", &ga.can_swap_graphs(&gb), &ga.can_swap_managers(&gb));
+        c.ck(ga.can_swap_graphs(&gb).is_ok(), || format!("C10 replicas of one lattice with equal signs refused: {:?}", ga.can_swap_graphs(&gb)));
+        // a replica with one coupling sign flipped / another lattice must be refused by both entry points
+        {
+            let mut s3 = s2.clone();
+            let k = r.below(s3.edges.len() as u64) as usize;
+            s3.edges[k].1 = -s3.edges[k].1;
+            let gc = build_ising(&s3, 4, None, 1);
+            c.ck(ga.can_swap_graphs(&gc).is_err() && ga.can_swap_managers(&gc).is_err(), || "C10 a replica with a flipped coupling sign is accepted".into());
+            c.eq("can_swap_graphs = can_swap_managers (refusal)", &ga.can_swap_graphs(&gc), &ga.can_swap_managers(&gc));
+            let mut s4 = s2.clone();
+            s4.edges.pop();
+            if !s4.edges.is_empty() && s4.edges.iter().map(|((a, b), _)| max(*a, *b)).max().unwrap() + 1 == s.nvars {
+                let gd = build_ising(&s4, 4, None, 1);
+                c.ck(ga.can_swap_graphs(&gd).is_err() && gd.can_swap_graphs(&ga).is_err(), || "C10 a replica with fewer edges is accepted".into());
+            }
+        }
+        // the exchange itself
+        let (ja, jb) = (js(&ga), js(&gb));
+        let (mut a1, mut b1, mut a2, mut b2) = (ga.clone(), gb.clone(), ga.clone(), gb.clone());
+        let r1 = c.call("swap_graphs", || SwapManagers::swap_graphs(&mut a1, &mut b1));
+        let r2 = c.call("swap_manager_and_state", || a2.swap_manager_and_state(&mut b2));
+        if r1.is_some() && r2.is_some() {
+            c.res(json_same("swap_graphs vs swap_manager_and_state (first)", &js(&a2), &js(&a1), &[]));
+            c.res(json_same("swap_graphs vs swap_manager_and_state (second)", &js(&b2), &js(&b1), &[]));
+            c.res(same_except_config("C10 position A keeps Hamiltonian, offset, rng, options", &ja, &js(&a1)));
+            c.res(same_except_config("C10 position B keeps Hamiltonian, offset, rng, options", &jb, &js(&b1)));
+            c.eq("C10 A holds B's state", &a1.state_ref().to_vec(), &gb.state_ref().to_vec());
+            c.eq("C10 B holds A's state", &b1.state_ref().to_vec(), &ga.state_ref().to_vec());
+            let ops = |g: &G| scan(g.get_manager_ref()).into_iter().flatten().collect::<Vec<_>>();
+            c.eq("C10 A holds B's operators", &ops(&a1), &ops(&gb));
+            c.eq("C10 B holds A's operators", &ops(&b1), &ops(&ga));
+            let mx = max(ga.get_cutoff(), gb.get_cutoff());
+            c.eq("C10 both replicas share the larger cutoff (A)", &a1.get_cutoff(), &mx);
+            c.eq("C10 both replicas share the larger cutoff (B)", &b1.get_cutoff(), &mx);
+            c.res(check_ising(&a1, &ga));
+            c.res(check_ising(&b1, &gb));
+            if c.call("timestep after the exchange", || {
+                a1.timestep(ba);
+                b1.timestep(bb);
+            })
+            .is_some()
+            {
+                c.res(check_ising(&a1, &ga));
+                c.res(check_ising(&b1, &gb));
+                c.res(cutoff_rule(a1.get_cutoff(), a1.get_n()));
+            }
+        }
+        case(ga.get_n() + gb.get_n() > 0, &input, c.done());
+
+        // ---- a pair of generic replicas: equal bonds (exchangeable) and scaled bonds (ratio 2^n)
+        let gs = gen_generic_spec(r);
+        let beta = gen_beta(r);
+        let mut qa = build_generic(&gs, gen_state(r, gs.nvars), r.next());
+        let mut qb = build_generic(&gs, gen_state(r, gs.nvars), r.next());
+        let scaled = GenSpec {
+            kind: gs.kind,
+            nvars: gs.nvars,
+            terms: gs.terms.iter().map(|t| Term { ctor: t.ctor, mat: t.mat.iter().map(|x| x * 2.0).collect(), vars: t.vars.clone() }).collect(),
+            loops: gs.loops,
+            heatbath: gs.heatbath,
+        };
+        let qc = build_generic(&scaled, gen_state(r, gs.nvars), 7);
+        for _ in 0..r.range(1, 5) {
+            qa.timestep(beta);
+            qb.timestep(beta);
+        }
+        let input = format!("c10 generic-pair A: {} | B: state={} slots={}", generic_ctx(&gs, &qa, beta), bits(qb.state_ref()), show_slots(qb.get_manager_ref()));
+        let mut c = Chk::new();
+        hits(&["Qmc::can_swap_managers", "Qmc::swap_manager_and_state", "Interaction::eq"]);
+        c.ck(qa.ham_eq(&qb) && qb.ham_eq(&qa), || "C10 ham_eq false for equal bonds".into());
+        c.ck(!qa.ham_eq(&qc), || "C10 ham_eq true for bonds scaled by 2".into());
+        c.eq("can_swap_graphs = can_swap_managers (equal bonds)", &qa.can_swap_graphs(&qb), &qa.can_swap_managers(&qb));
+        c.ck(qa.can_swap_graphs(&qb).is_ok(), || "C10 equal bonds refused".into());
+        c.eq("can_swap_graphs = can_swap_managers (scaled bonds)", &qa.can_swap_graphs(&qc), &qa.can_swap_managers(&qc));
+        c.ck(qa.can_swap_graphs(&qc).is_err(), || "C10 unequal bonds accepted".into());
+        let na = QmcStepper::get_n(&qa);
+        if let Some(got) = c.call("relative_weight", || qa.relative_weight(&qc)) {
+            c.ck(close(got, 2f64.powi(na as i32)), || format!("C10 relative_weight against bonds scaled by 2 = {} expected 2^{}", got, na));
+        }
+        if let Some(got) = c.call("relative_weight", || qa.relative_weight(&qb)) {
+            c.ck(close(got, 1.0), || format!("C10 relative_weight against equal bonds = {}", got));
+        }
+        let (hc, ha) = (gen_hclosure(qc.get_bonds()), gen_hclosure(qa.get_bonds()));
+        c.ck(close(qa.get_manager_ref().relative_weight_for_hamiltonians(hc, ha), 2f64.powi(na as i32)), || "C10 relative_weight_for_hamiltonians (scaled)".into());
+        c.ck(close(qa.get_manager_ref().relative_weight_for_hamiltonians(ha, hc), 0.5f64.powi(na as i32)), || "C10 relative_weight_for_hamiltonians (inverse)".into());
+        let (ja, jb) = (js(&qa), js(&qb));
+        let (mut a1, mut b1, mut a2, mut b2) = (qa.clone(), qb.clone(), qa.clone(), qb.clone());
+        let r1 = c.call("swap_graphs", || SwapManagers::swap_graphs(&mut a1, &mut b1));
+        let r2 = c.call("swap_manager_and_state", || a2.swap_manager_and_state(&mut b2));
+        if r1.is_some() && r2.is_some() {
+            c.res(json_same("swap_graphs vs swap_manager_and_state (first)", &js(&a2), &js(&a1), &[]));
+            c.res(json_same("swap_graphs vs swap_manager_and_state (second)", &js(&b2), &js(&b1), &[]));
+            c.res(same_except_config("C10 position A keeps bonds, offset, rng, options", &ja, &js(&a1)));
+            c.res(same_except_config("C10 position B keeps bonds, offset, rng, options", &jb, &js(&b1)));
+            c.eq("C10 A holds B's state", &a1.state_ref().to_vec(), &qb.state_ref().to_vec());
+            c.eq("C10 B holds A's state", &b1.state_ref().to_vec(), &qa.state_ref().to_vec());
+            let mx = max(qa.get_cutoff(), qb.get_cutoff());
+            c.eq("C10 shared cutoff (A)", &a1.get_cutoff(), &mx);
+            c.eq("C10 shared cutoff (B)", &b1.get_cutoff(), &mx);
+            c.res(check_generic(&a1));
+            c.res(check_generic(&b1));
+            if c.call("timestep after the exchange", || {
+                a1.timestep(beta);
+                b1.timestep(beta);
+            })
+            .is_some()
+            {
+                c.res(check_generic(&a1));
+                c.res(check_generic(&b1));
+            }
+        }
+        case(na > 0, &input, c.done());
+
+        // ---- a container of generic replicas (serial and thread-parallel driver)
+        let mut c = Chk::new();
+        let cseed = r.next();
+        let b2 = gen_beta(r);
+        let mut tq: TQ = TemperingContainer::new(SplitMix64::new(cseed));
+        c.ck(tq.add_qmc_stepper(qa.clone(), beta).is_ok() && tq.add_qmc_stepper(qb.clone(), b2).is_ok(), || "add_qmc_stepper refused equal bonds".into());
+        c.ck(tq.add_qmc_stepper(qc.clone(), beta).is_err() && tq.num_graphs() == 2, || "C10 add_qmc_stepper accepted a replica with other bonds".into());
+        let mut tp = tq.clone();
+        let originals: Vec<Value> = tq.graph_ref().iter().map(|(q, _)| js(q)).collect();
+        for round in 0..3 {
+            if c
+                .call("generic container steps", || {
+                    tq.timesteps(2);
+                    tq.tempering_step();
+                    tp.parallel_timesteps(2);
+                    tp.parallel_tempering_step();
+                })
+                .is_none()
+            {
+                break;
+            }
+            c.res(json_same(&format!("C13 round {}: thread-parallel driver vs serial driver", round), &js(&tq), &js(&tp), &[]));
+            let cut: Vec<usize> = tq.graph_ref().iter().map(|(q, _)| q.get_cutoff()).collect();
+            c.ck(cut.iter().all(|x| *x == cut[0]), || format!("C10 generic replicas do not share one cutoff: {:?}", cut));
+            for (k, (q, _)) in tq.graph_ref().iter().enumerate() {
+                c.res(json_same(&format!("C10 slot {} keeps bonds, offset, options", k), &originals[k], &js(q), &["state", "manager", "cutoff", "rng", "bond_weights"]));
+                c.res(check_generic(q));
+            }
+        }
+        case(true, &format!("c10 generic-container betas={},{} cseed={} A: {}", rat(beta), rat(b2), cseed, generic_ctx(&gs, &qa, beta)), c.done());
+    }
+
+    // ---- containers
+    for it in 0..max(2, n / 2) {
+        let s = gen_ising_spec(r, None);
+        let nrep = r.range(1, 4) as usize;
+        let specs: Vec<IsingSpec> = (0..nrep).map(|k| if k == 0 { s.clone() } else { scale_spec(r, &s) }).collect();
+        let betas: Vec<f64> = (0..nrep).map(|_| gen_beta(r)).collect();
+        let seeds: Vec<u64> = (0..nrep).map(|_| r.next()).collect();
+        let cuts: Vec<usize> = (0..nrep).map(|_| r.range(1, 9) as usize).collect();
+        let cseed = r.next();
+        let toks: Vec<String> = specs.iter().map(spec_token).collect();
+        let input = format!("c10 container {} betas={} cutoffs={} seeds={} cseed={}", toks.join(" "), rats(&betas), list(&cuts), list(&seeds), cseed);
+        let mut c = Chk::new();
+        hits(&["tempering_container::new_with_rng", "TemperingContainer::new", "TemperingContainer::num_graphs", "TemperingContainer::iter_over_states", "ParallelQmcTimeSteps::parallel_iter_over_states"]);
+        let mut ta: TC = new_with_rng::<SplitMix64, SplitMix64>(SplitMix64::new(cseed));
+        let mut tb: TC = TemperingContainer::new(SplitMix64::new(cseed));
+        c.res(json_same("new_with_rng vs TemperingContainer::new (empty)", &js(&tb), &js(&ta), &[]));
+        c.ck(ta.num_graphs() == 0 && ta.get_total_swaps() == 0 && ta.graph_ref().is_empty(), || "fresh container not empty".into());
+        for k in 0..nrep {
+            let mk = || build_ising(&specs[k], cuts[k], None, seeds[k]);
+            c.ck(ta.add_qmc_stepper(mk(), betas[k]).is_ok() && tb.add_qmc_stepper(mk(), betas[k]).is_ok(), || "add_qmc_stepper refused a scaled replica".into());
+        }
+        c.eq("num_graphs", &ta.num_graphs(), &nrep);
+        let originals: Vec<Value> = ta.graph_ref().iter().map(|(g, _)| js(g)).collect();
+        let ghosts: Vec<G> = ta.graph_ref().iter().map(|(g, _)| g.clone()).collect();
+        let mut ok = true;
+        for round in 0..4 {
+            ok &= c
+                .call("timesteps + tempering_step", || {
+                    ta.timesteps(2);
+                    tb.timesteps(2);
+                    ta.tempering_step();
+                    tb.tempering_step();
+                })
+                .is_some();
+            if !ok {
+                break;
+            }
+            c.res(json_same(&format!("C13 round {}: new_with_rng vs new", round), &js(&tb), &js(&ta), &[]));
+            let cut: Vec<usize> = ta.graph_ref().iter().map(|(g, _)| g.get_cutoff()).collect();
+            c.ck(nrep == 1 || cut.iter().all(|x| *x == cut[0]), || format!("C10 replicas do not share one cutoff after an exchange step: {:?}", cut));
+            c.ck(ta.verify(), || "Verify::verify of the container".into());
+            for (k, (g, b)) in ta.graph_ref().iter().enumerate() {
+                c.eq("beta kept", b, &betas[k]);
+                c.res(json_same(&format!("C10 slot {} keeps its model, offset, options", k), &originals[k], &js(g), &["state", "op_manager", "cutoff", "rng", "total_rvb_successes", "rvb_clusters_counted"]));
+                c.res(check_ising(g, &ghosts[k]));
+            }
+            // state visitors
+            let seen = RefCell::new(Vec::<Vec<bool>>::new());
+            ta.iter_over_states(|st| seen.borrow_mut().push(st.to_vec()));
+            let e: Vec<Vec<bool>> = ta.graph_ref().iter().map(|(g, _)| g.state_ref().to_vec()).collect();
+            c.eq("C17 iter_over_states visits every replica's state in order", &seen.into_inner(), &e);
+            let seen = std::sync::Mutex::new(Vec::<Vec<bool>>::new());
+            ta.parallel_iter_over_states(|st| seen.lock().unwrap().push(st.to_vec()));
+            let (mut got, mut e2) = (seen.into_inner().unwrap(), e.clone());
+            got.sort();
+            e2.sort();
+            c.eq("C17 parallel_iter_over_states visits every replica's state once", &got, &e2);
+        }
+        if ok {
+            hits(&[
+                "TemperingContainer::clone",
+                "TemperingContainer::fmt",
+                "TemperingContainer::serde",
+                "SerializeTemperingContainer::from",
+                "SerializeTemperingContainer_tuple::from",
+                "SerializeTemperingContainer::num_graphs",
+                "SerializeTemperingContainer::into_tempering_container_gen_rngs",
+                "SerializeTemperingContainer::fmt",
+                "SerializeTemperingContainer::serde",
+            ]);
+            let mut copies: Vec<(&'static str, TC)> = vec![("clone", ta.clone())];
+            c.ck(format!("{:?}", ta).contains("TemperingContainer") && format!("{:?}", ta) == format!("{:?}", copies[0].1), || "Debug of the container / of its clone".into());
+            match json_rt(&ta) {
+                Ok(t) => copies.push(("serde", t)),
+                Err(e) => c.ck(false, || e),
+            }
+            if let Some(t) = c.call("rng-less tuple snapshot", || {
+                let (st, rng, rngs): (SerializeTemperingContainer<FastOps>, SplitMix64, Vec<SplitMix64>) = ta.clone().into();
+                let n = st.num_graphs();
+                assert_eq!(n, nrep);
+                assert!(format!("{:?}", st).contains("SerializeTemperingContainer"));
+                let st2: SerializeTemperingContainer<FastOps> = json_rt(&st).expect("snapshot round trip");
+                assert_eq!(js(&st2), js(&st));
+                st2.into_tempering_container_from_vec(rng, rngs)
+            }) {
+                copies.push(("rng-less snapshot", t));
+            }
+            let jt = js(&ta);
+            for (name, t) in copies.iter() {
+                c.res(json_same(&format!("C13/C14 {} of the container", name), &jt, &js(t), &["graph_ham_eq_a", "graph_ham_eq_b"]));
+            }
+            let run = |t: &mut TC| {
+                t.timesteps(1);
+                t.tempering_step();
+                t.timesteps_sample(4, 2, 1)
+            };
+            if let Some(base) = c.call("continue original", || run(&mut ta)) {
+                for (name, t) in copies.iter_mut() {
+                    if let Some(got) = c.call("continue copy", || run(t)) {
+                        c.ck(got.len() == base.len() && got.iter().zip(base.iter()).all(|(x, y)| x.0 == y.0 && x.1.to_bits() == y.1.to_bits()), || format!("C13/C14 {} of the container returns other samples / energies", name));
+                        c.res(json_same(&format!("C13/C14 {} of the container after continuing", name), &js(&ta), &js(t), &["graph_ham_eq_a", "graph_ham_eq_b"]));
+                    }
+                }
+            }
+            c.res(json_same("C13 the twin built by `new` untouched meanwhile", &jt, &js(&tb), &[]));
+            // rng-less snapshot with generated replica rngs: seeds come from the container rng, in order
+            use rand::rngs::SmallRng;
+            use rand::SeedableRng;
+            let st: SerializeTemperingContainer<FastOps> = ta.clone().into();
+            let st_b: SerializeTemperingContainer<FastOps> = ta.clone().into();
+            c.eq("SerializeTemperingContainer::num_graphs", &st.num_graphs(), &nrep);
+            let gseed = r.next();
+            let auto = c.call("into_tempering_container_gen_rngs", || st.into_tempering_container_gen_rngs::<SplitMix64, SmallRng>(SplitMix64::new(gseed)));
+            let mut crng = SplitMix64::new(gseed);
+            let rngs: Vec<SmallRng> = (0..nrep).map(|_| SmallRng::seed_from_u64(crng.gen())).collect();
+            let mut manual = st_b.into_tempering_container_from_vec(crng, rngs);
+            if let Some(mut auto) = auto {
+                let ra = c.call("continue gen_rngs", || {
+                    auto.timesteps(2);
+                    auto.tempering_step();
+                    auto.timesteps_sample(4, 2, 1)
+                });
+                manual.timesteps(2);
+                manual.tempering_step();
+                let rm = manual.timesteps_sample(4, 2, 1);
+                if let Some(ra) = ra {
+                    c.ck(ra.len() == rm.len() && ra.iter().zip(rm.iter()).all(|(x, y)| x.0 == y.0 && x.1.to_bits() == y.1.to_bits()), || "C14 gen_rngs: replica rngs are not seeded from the container rng in order".into());
+                    c.eq("C14 gen_rngs swap counter", &auto.get_total_swaps(), &manual.get_total_swaps());
+                    c.eq("C14 gen_rngs container rng", &auto.rng_mut().next_u64(), &manual.rng_mut().next_u64());
+                }
+            }
+        }
+        case(true, &input, c.done());
+
+        // thread_rng container and samplers: invariants only
+        if it < 1 {
+            let mut c = Chk::new();
+            hits(&["tempering_container::new_thread_rng", "qmc_ising::new_qmc"]);
+            if let Some(mut t) = c.call("new_thread_rng", new_thread_rng) {
+                c.ck(t.num_graphs() == 0 && t.get_total_swaps() == 0, || "new_thread_rng not empty".into());
+                for k in 0..nrep {
+                    let e = specs[k].edges.clone();
+                    let added = t.add_qmc_stepper(new_qmc(e, specs[k].gamma, specs[k].h, cuts[k], None), betas[k]);
+                    c.ck(added.is_ok(), || format!("add_qmc_stepper: {:?}", added));
+                }
+                for _ in 0..3 {
+                    if c.call("thread_rng container steps", || {
+                        t.timesteps(2);
+                        t.tempering_step();
+                    })
+                    .is_none()
+                    {
+                        break;
+                    }
+                    c.ck(t.verify(), || "verify of the thread_rng container".into());
+                    let cut: Vec<usize> = t.graph_ref().iter().map(|(g, _)| g.get_cutoff()).collect();
+                    c.ck(cut.iter().all(|x| *x == cut[0]), || format!("C10 cutoffs differ after an exchange step: {:?}", cut));
+                    for (k, (g, _)) in t.graph_ref().iter().enumerate() {
+                        c.res(check_ising(g, &ghosts[k]));
+                    }
+                }
+                let cnt = RefCell::new(0usize);
+                t.iter_over_states(|_| *cnt.borrow_mut() += 1);
+                c.eq("iter_over_states count", &cnt.into_inner(), &nrep);
+            }
+            case(true, &format!("c10 thread-rng-container {}", toks.join(" ")), c.done());
+        }
+    }
+}
+
+// ------------------------------------------------------------------------------------------------------------------
+// c13: Clone / Debug / serde of the samplers and helper types; copies continue identically and independently
+// ------------------------------------------------------------------------------------------------------------------
+fn random_ising_call(g: &mut G, which: u64, beta: f64) {
+    match which {
+        0 => {
+            g.timestep(beta);
+        }
+        1 => g.single_diagonal_step(beta),
+        2 => {
+            g.single_cluster_step();
+        }
+        3 => {
+            g.single_rvb_sweep(None);
+        }
+        _ => {
+            g.timesteps(2, beta);
+        }
+    }
+}
+fn mode_c13(r: &mut SplitMix64, n: usize) {
+    for _ in 0..n {
+        let s = gen_ising_spec(r, None);
+        let beta = gen_beta(r);
+        let mut g = build_ising(&s, r.range(1, 10) as usize, None, r.next());
+        let (rvb, hb) = (r.coin(), r.coin());
+        g.set_run_rvb(rvb);
+        g.set_enable_heatbath(hb);
+        for _ in 0..r.range(0, 5) {
+            g.timestep(beta);
+        }
+        let input = format!("c13 ising-copies rvb={} hb={} {}", rvb, hb, ising_ctx(&s, &g, beta));
+        let mut c = Chk::new();
+        hits(&[
+            "QmcIsingGraph::clone",
+            "QmcIsingGraph::fmt",
+            "QmcIsingGraph::serde",
+            "SerializeQmcGraph::clone",
+            "SerializeQmcGraph::fmt",
+            "SerializeQmcGraph::serde",
+            "SerializeQmcGraph::from",
+            "BondWeights::clone",
+            "BondWeights::fmt",
+            "BondWeights::serde",
+        ]);
+        let j0 = js(&g);
+        let mut copies: Vec<(&'static str, G)> = vec![("clone", g.clone())];
+        c.ck(format!("{:?}", g) == format!("{:?}", copies[0].1) && format!("{:?}", g).starts_with("QmcIsingGraph"), || "Debug of the sampler / of its clone".into());
+        match json_rt(&g) {
+            Ok(x) => copies.push(("serde", x)),
+            Err(e) => c.ck(false, || format!("C14 {}", e)),
+        }
+        if let Some(x) = c.call("rng-less snapshot", || {
+            let sg: SerializeQmcGraph<FastOps> = g.clone().into();
+            let sg2 = sg.clone();
+            assert_eq!(js(&sg), js(&sg2), "SerializeQmcGraph clone");
+            assert_eq!(format!("{:?}", sg), format!("{:?}", sg2));
+            assert!(format!("{:?}", sg).starts_with("SerializeQmcGraph"));
+            let sg3: SerializeQmcGraph<FastOps> = json_rt(&sg2).expect("snapshot serde");
+            assert_eq!(js(&sg), js(&sg3), "SerializeQmcGraph serde");
+            sg3.into_qmc(rng_of(&g))
+        }) {
+            copies.push(("rng-less snapshot + same rng", x));
+        }
+        for (name, x) in copies.iter() {
+            c.res(json_same(&format!("C13/C14 {}", name), &j0, &js(x), &[]));
+            c.ck(x.verify(), || format!("C14 {} does not pass verify()", name));
+            c.ck(x.rvb_success_rate().to_bits() == g.rvb_success_rate().to_bits(), || format!("{}: rvb_success_rate differs", name));
+        }
+        if hb {
+            let vars: Vec<usize> = (0..s.nvars).collect();
+            let ghost = g.clone();
+            let bw = ising_bond_weights(&IsingHam { g: &ghost, vars: &vars });
+            let bw2 = bw.clone();
+            c.ck(js(&bw) == js(&bw2) && format!("{:?}", bw) == format!("{:?}", bw2) && format!("{:?}", bw).contains("BondWeights"), || "BondWeights clone / Debug".into());
+            match json_rt(&bw) {
+                Ok(x) => c.ck(js(&x) == js(&bw), || "C14 BondWeights serde".into()),
+                Err(e) => c.ck(false, || e),
+            }
+            c.res(json_same("C14 heat-bath table inside the copies", &js(&bw), &j0["bond_weights"], &[]));
+        }
+        // stepping the copies alone leaves the original untouched; afterwards the original catches up identically
+        let script: Vec<u64> = (0..5).map(|_| r.below(5)).collect();
+        let mut ok = true;
+        for (_, x) in copies.iter_mut() {
+            ok &= c.call("steps on a copy", || script.iter().for_each(|w| random_ising_call(x, *w, beta))).is_some();
+        }
+        c.res(json_same("C13 original untouched by stepping its copies", &j0, &js(&g), &[]));
+        if ok && c.call("steps on the original", || script.iter().for_each(|w| random_ising_call(&mut g, *w, beta))).is_some() {
+            let j1 = js(&g);
+            for (name, x) in copies.iter() {
+                c.res(json_same(&format!("C13/C14 {} after {:?}", name, script), &j1, &js(x), &[]));
+            }
+            let ghost = build_ising(&s, 1, None, 1);
+            c.res(check_ising(&g, &ghost));
+        }
+        let _ = qmc::sse::qmc_traits::rvb::verif_hooks::take_trace();
+        case(true, &input, c.done());
+
+        // generic sampler after steps (heat-bath cache filled, loops)
+        let (gs, mut q, beta) = warm_generic(r);
+        let input = format!("c13 generic-copies {}", generic_ctx(&gs, &q, beta));
+        let mut c = Chk::new();
+        hits(&["Qmc::clone", "Qmc::fmt", "Qmc::serde", "ManagerRef::fmt"]);
+        let j0 = js(&q);
+        let mut copies: Vec<(&'static str, Q)> = vec![("clone", q.clone())];
+        c.ck(format!("{:?}", q) == format!("{:?}", copies[0].1), || "Debug of the generic sampler / of its clone".into());
+        match json_rt(&q) {
+            Ok(x) => copies.push(("serde", x)),
+            Err(e) => c.ck(false, || format!("C14 {}", e)),
+        }
+        for (name, x) in copies.iter() {
+            c.res(json_same(&format!("C13/C14 {}", name), &j0, &js(x), &[]));
+        }
+        let mut ok = true;
+        for (_, x) in copies.iter_mut() {
+            ok &= c.call("steps on a copy", || (0..4).for_each(|_| {
+                x.timestep(beta);
+            }))
+            .is_some();
+        }
+        c.res(json_same("C13 original untouched by stepping its copies", &j0, &js(&q), &[]));
+        if ok && c.call("steps on the original", || (0..4).for_each(|_| {
+            q.timestep(beta);
+        }))
+        .is_some()
+        {
+            let j1 = js(&q);
+            for (name, x) in copies.iter() {
+                c.res(json_same(&format!("C13/C14 {} after 4 steps", name), &j1, &js(x), &[]));
+            }
+            c.res(check_generic(&q));
+        }
+        let m = q.get_manager_ref();
+        let d1 = format!("{:?}", ManagerRef::<FastOps, FastOps>::Diagonal(m));
+        let d2 = format!("{:?}", ManagerRef::<FastOps, FastOps>::Looper(m));
+        c.ck(d1.starts_with("Diagonal(") && d2.starts_with("Looper("), || "ManagerRef Debug".into());
+        case(true, &input, c.done());
+    }
+}
+
+// ------------------------------------------------------------------------------------------------------------------
+// c17: every measuring helper = manual loop on a clone
+// ------------------------------------------------------------------------------------------------------------------
+fn same_f(a: f64, b: f64) -> bool {
+    a.to_bits() == b.to_bits() || (a.is_nan() && b.is_nan())
+}
+fn measure_checks<S>(c: &mut Chk, base: &S, offset: f64, beta: f64, t: usize, f: Option<usize>, zip_len: usize)
+where
+    S: QmcStepper + Clone + serde::Serialize,
+{
+    let fr = f.unwrap_or(1);
+    // manual loop
+    let mut man = base.clone();
+    let mut states: Vec<Vec<bool>> = vec![];
+    let mut ns: Vec<usize> = vec![];
+    let mut all_ns: Vec<usize> = vec![];
+    for k in 0..t {
+        man.timestep(beta);
+        all_ns.push(man.get_n());
+        if (k + 1) % fr == 0 {
+            states.push(man.state_ref().to_vec());
+            ns.push(man.get_n());
+        }
+    }
+    let energy = |ns: &[usize]| -((ns.iter().sum::<usize>() as f64 / ns.len() as f64) / beta) + offset;
+    let (e, e_all) = (energy(&ns), energy(&all_ns));
+    let jm = js(&man);
+    c.eq("C17 number of folds = floor(T/f)", &states.len(), &(t / fr));
+    let fin = |c: &mut Chk, what: &str, x: &S| c.res(json_same(&format!("C17 {}: sampler after the run vs manual loop", what), &jm, &js(x), &[]));
+    hits(&[
+        "QmcStepper::timesteps",
+        "QmcStepper::timesteps_sample",
+        "QmcStepper::timesteps_sample_iter",
+        "QmcStepper::timesteps_sample_iter_zip",
+        "QmcStepper::timesteps_measure",
+        "QmcStepper::timesteps_iter_zip_with_self",
+        "QmcStepper::timesteps_measure_with_self",
+    ]);
+    {
+        let mut x = base.clone();
+        if let Some(got) = c.call("timesteps", || x.timesteps(t, beta)) {
+            c.ck(same_f(got, e_all), || format!("C17 timesteps({}) = {} expected -<n>/beta + offset over every step = {}", t, got, e_all));
+            fin(c, "timesteps", &x);
+        }
+    }
+    {
+        let mut x = base.clone();
+        if let Some((st, got)) = c.call("timesteps_sample", || x.timesteps_sample(t, beta, f)) {
+            c.eq("C17 timesteps_sample states", &st, &states);
+            c.ck(same_f(got, e), || format!("C17 timesteps_sample energy {} expected {}", got, e));
+            fin(c, "timesteps_sample", &x);
+        }
+    }
+    {
+        let mut x = base.clone();
+        let seen = RefCell::new(Vec::<Vec<bool>>::new());
+        if let Some(got) = c.call("timesteps_sample_iter", || x.timesteps_sample_iter(t, beta, f, |s| seen.borrow_mut().push(s.to_vec()))) {
+            c.eq("C17 timesteps_sample_iter states", &seen.into_inner(), &states);
+            c.ck(same_f(got, e), || format!("C17 timesteps_sample_iter energy {} expected {}", got, e));
+            fin(c, "timesteps_sample_iter", &x);
+        }
+    }
+    let zipped: Vec<(usize, Vec<bool>)> = states.iter().cloned().enumerate().take(zip_len).map(|(i, s)| (i + 100, s)).collect();
+    {
+        let mut x = base.clone();
+        let seen = RefCell::new(Vec::<(usize, Vec<bool>)>::new());
+        if let Some(got) = c.call("timesteps_sample_iter_zip", || x.timesteps_sample_iter_zip(t, beta, f, 100..100 + zip_len, |i, s| seen.borrow_mut().push((i, s.to_vec())))) {
+            c.eq("C17 timesteps_sample_iter_zip pairs (stops with the shorter side)", &seen.into_inner(), &zipped);
+            c.ck(same_f(got, e), || format!("C17 timesteps_sample_iter_zip energy {} expected {}", got, e));
+            fin(c, "timesteps_sample_iter_zip", &x);
+        }
+    }
+    {
+        let mut x = base.clone();
+        let seen = RefCell::new(Vec::<(usize, Vec<bool>, usize)>::new());
+        if let Some(got) = c.call("timesteps_iter_zip_with_self", || {
+            x.timesteps_iter_zip_with_self(t, beta, f, 100..100 + zip_len, |i, s: &S| seen.borrow_mut().push((i, s.state_ref().to_vec(), s.get_n())))
+        }) {
+            let ez: Vec<(usize, Vec<bool>, usize)> = zipped.iter().cloned().zip(ns.iter()).map(|((i, s), n)| (i, s, *n)).collect();
+            c.eq("C17 timesteps_iter_zip_with_self (index, state, n)", &seen.into_inner(), &ez);
+            c.ck(same_f(got, e), || format!("C17 timesteps_iter_zip_with_self energy {} expected {}", got, e));
+            fin(c, "timesteps_iter_zip_with_self", &x);
+        }
+    }
+    {
+        let mut x = base.clone();
+        if let Some((acc, got)) = c.call("timesteps_measure", || {
+            x.timesteps_measure(
+                t,
+                beta,
+                vec![],
+                |mut acc: Vec<Vec<bool>>, s| {
+                    acc.push(s.to_vec());
+                    acc
+                },
+                f,
+            )
+        }) {
+            c.eq("C17 timesteps_measure fold", &acc, &states);
+            c.ck(same_f(got, e), || format!("C17 timesteps_measure energy {} expected {}", got, e));
+            fin(c, "timesteps_measure", &x);
+        }
+    }
+    {
+        let mut x = base.clone();
+        if let Some((acc, got)) = c.call("timesteps_measure_with_self", || {
+            x.timesteps_measure_with_self(
+                t,
+                beta,
+                vec![],
+                |mut acc: Vec<(Vec<bool>, usize)>, s: &S| {
+                    acc.push((s.state_ref().to_vec(), s.get_n()));
+                    acc
+                },
+                f,
+            )
+        }) {
+            let ez: Vec<(Vec<bool>, usize)> = states.iter().cloned().zip(ns.iter().cloned()).collect();
+            c.eq("C17 timesteps_measure_with_self fold", &acc, &ez);
+            c.ck(same_f(got, e), || format!("C17 timesteps_measure_with_self energy {} expected {}", got, e));
+            fin(c, "timesteps_measure_with_self", &x);
+        }
+    }
+}
+fn mode_c17(r: &mut SplitMix64, n: usize) {
+    for _ in 0..n {
+        let t = r.range(0, 9) as usize;
+        let f = if r.chance(1, 3) { None } else { Some(r.range(1, 4) as usize) };
+        let zl = r.below(t as u64 + 2) as usize;
+        let mut c = Chk::new();
+        if r.coin() {
+            let (s, mut g, beta) = warm_ising(r, None);
+            g.set_run_rvb(r.coin());
+            let input = format!("c17 ising T={} f={:?} zip={} {}", t, f, zl, ising_ctx(&s, &g, beta));
+            measure_checks(&mut c, &g, g.get_offset(), beta, t, f, zl);
+            let _ = qmc::sse::qmc_traits::rvb::verif_hooks::take_trace();
+            case(t > 0, &input, c.done());
+        } else {
+            let (gs, q, beta) = warm_generic(r);
+            let input = format!("c17 generic T={} f={:?} zip={} {}", t, f, zl, generic_ctx(&gs, &q, beta));
+            measure_checks(&mut c, &q, q.get_offset(), beta, t, f, zl);
+            case(t > 0, &input, c.done());
+        }
+    }
+}
+
+// ------------------------------------------------------------------------------------------------------------------
+// c18: allocator public surface; c03: BondContainer against a naive list
+// ------------------------------------------------------------------------------------------------------------------
+trait Scratch: Default {
+    fn empty(&self) -> bool;
+    fn dirty(&mut self);
+}
+impl Scratch for Vec<bool> {
+    fn empty(&self) -> bool {
+        self.is_empty()
+    }
+    fn dirty(&mut self) {
+        self.push(true)
+    }
+}
+impl Scratch for Vec<usize> {
+    fn empty(&self) -> bool {
+        self.is_empty()
+    }
+    fn dirty(&mut self) {
+        self.push(7)
+    }
+}
+impl Scratch for Vec<Option<usize>> {
+    fn empty(&self) -> bool {
+        self.is_empty()
+    }
+    fn dirty(&mut self) {
+        self.push(Some(7))
+    }
+}
+impl Scratch for Vec<OpSide> {
+    fn empty(&self) -> bool {
+        self.is_empty()
+    }
+    fn dirty(&mut self) {
+        self.push(OpSide::Inputs)
+    }
+}
+impl Scratch for Vec<(usize, OpSide)> {
+    fn empty(&self) -> bool {
+        self.is_empty()
+    }
+    fn dirty(&mut self) {
+        self.push((1, OpSide::Outputs))
+    }
+}
+impl Scratch for Vec<f64> {
+    fn empty(&self) -> bool {
+        self.is_empty()
+    }
+    fn dirty(&mut self) {
+        self.push(0.5)
+    }
+}
+impl Scratch for BondContainer<usize> {
+    fn empty(&self) -> bool {
+        self.is_empty() && self.get_total_weight() == 0.0 && (0..8).all(|k| !self.contains(&k)) && self.iter().count() == 0
+    }
+    fn dirty(&mut self) {
+        self.insert(3, 0.5);
+        self.insert(1, 0.25);
+    }
+}
+impl Scratch for BondContainer<VarPos> {
+    fn empty(&self) -> bool {
+        self.is_empty() && self.get_total_weight() == 0.0 && !self.contains(&VarPos::default())
+    }
+    fn dirty(&mut self) {
+        self.insert(VarPos::default(), 0.5);
+    }
+}
+impl Scratch for BinaryHeap<Reverse<usize>> {
+    fn empty(&self) -> bool {
+        self.is_empty()
+    }
+    fn dirty(&mut self) {
+        self.push(Reverse(3))
+    }
+}
+/// one pooled type on one factory: instances come out empty, go back (dirty) and come out empty again; occupancy restored
+fn factory_checks<F, T>(c: &mut Chk, what: &str, a: &mut F, snap: &dyn Fn(&F) -> Value, pooled: bool, capacity: Option<usize>)
+where
+    F: Factory<T>,
+    T: Scratch,
+{
+    let s0 = snap(a);
+    pool_begin();
+    let mut x: T = a.get_instance();
+    c.ck(x.empty(), || format!("C18 {}: a fresh instance is not empty", what));
+    let log = verif_log::take();
+    c.ck(log.len() == pooled as usize && log.iter().all(|e| e.1 == 1), || format!("C18 {}: hook log of one get_instance: {:?}", what, log));
+    if pooled {
+        c.ck(snap(a) != s0, || format!("C18 {}: occupancy unchanged by get_instance", what));
+    }
+    x.dirty();
+    a.return_instance(x);
+    let log = verif_log::take();
+    c.ck(log.len() == pooled as usize && log.iter().all(|e| e.1 == -1 && e.2), || format!("C18 {}: hook log of returning a used buffer: {:?}", what, log));
+    c.ck(snap(a) == s0, || format!("C18 {}: occupancy not restored by return_instance", what));
+    let y: T = a.get_instance();
+    c.ck(y.empty(), || format!("C18 {}: a buffer returned used comes back NOT emptied", what));
+    a.return_instance(y);
+    c.ck(snap(a) == s0, || format!("C18 {}: occupancy not restored", what));
+    let _ = verif_log::take();
+    // bounded pool: `capacity` instances can be out at once, all come back
+    if let Some(cap) = capacity {
+        let mut out: Vec<T> = vec![];
+        let got = catch(std::panic::AssertUnwindSafe(|| {
+            for _ in 0..cap {
+                out.push(a.get_instance());
+            }
+        }));
+        c.ck(got.is_ok(), || format!("C18 {}: pool of capacity {} exhausted early: {:?}", what, cap, got));
+        c.ck(out.iter().all(|t| t.empty()), || format!("C18 {}: instance not empty", what));
+        for t in out.drain(..) {
+            a.return_instance(t);
+        }
+        c.ck(snap(a) == s0, || format!("C18 {}: occupancy not restored after {} instances in flight", what, cap));
+        let _ = verif_log::take();
+    }
+}
+fn all_types<F>(c: &mut Chk, what: &str, a: &mut F, snap: &dyn Fn(&F) -> Value, pooled: bool, caps: Option<[usize; 9]>)
+where
+    F: FastOpAllocatorLike,
+{
+    let cap = |i: usize| caps.map(|x| x[i]);
+    factory_checks::<F, Vec<usize>>(c, &format!("{} Vec<usize>", what), a, snap, pooled, cap(0));
+    factory_checks::<F, Vec<bool>>(c, &format!("{} Vec<bool>", what), a, snap, pooled, cap(1));
+    factory_checks::<F, Vec<OpSide>>(c, &format!("{} Vec<OpSide>", what), a, snap, pooled, cap(2));
+    factory_checks::<F, Vec<(usize, OpSide)>>(c, &format!("{} Vec<Leg>", what), a, snap, pooled, cap(3));
+    factory_checks::<F, Vec<Option<usize>>>(c, &format!("{} Vec<Option<usize>>", what), a, snap, pooled, cap(4));
+    factory_checks::<F, Vec<f64>>(c, &format!("{} Vec<f64>", what), a, snap, pooled, cap(5));
+    factory_checks::<F, BondContainer<usize>>(c, &format!("{} BondContainer<usize>", what), a, snap, pooled, cap(6));
+    factory_checks::<F, BondContainer<VarPos>>(c, &format!("{} BondContainer<VarPos>", what), a, snap, pooled, cap(7));
+    factory_checks::<F, BinaryHeap<Reverse<usize>>>(c, &format!("{} BinaryHeap", what), a, snap, pooled, cap(8));
+}
+/// everything that hands out all nine pooled types
+trait FastOpAllocatorLike:
+    Factory<Vec<usize>>
+    + Factory<Vec<bool>>
+    + Factory<Vec<OpSide>>
+    + Factory<Vec<(usize, OpSide)>>
+    + Factory<Vec<Option<usize>>>
+    + Factory<Vec<f64>>
+    + Factory<BondContainer<usize>>
+    + Factory<BondContainer<VarPos>>
+    + Factory<BinaryHeap<Reverse<usize>>>
+{
+}
+impl FastOpAllocatorLike for DefaultFastOpAllocator {}
+impl FastOpAllocatorLike for SwitchableFastOpAllocator<DefaultFastOpAllocator> {}
+impl<A: FastOpAllocator> FastOpAllocatorLike for FastOpsTemplate<FastOp, A> {}
+const POOL_FIELDS: [&str; 9] = [
+    "usize_alloc",
+    "bool_alloc",
+    "opside_alloc",
+    "leg_alloc",
+    "option_usize_alloc",
+    "f64_alloc",
+    "bond_container_alloc",
+    "bond_container_varpos_alloc",
+    "binary_heap_alloc",
+];
+fn caps_of(v: &Value) -> Option<[usize; 9]> {
+    let mut out = [0usize; 9];
+    for (i, f) in POOL_FIELDS.iter().enumerate() {
+        out[i] = v.get(*f)?.get("instances")?.as_u64()? as usize;
+    }
+    Some(out)
+}
+fn mode_c18(_r: &mut SplitMix64, n: usize) {
+    for round in 0..max(1, n / 4) {
+        let mut c = Chk::new();
+        hits(&[
+            "Factory::get_instance",
+            "Factory::return_instance",
+            "DefaultFastOpAllocator::default",
+            "DefaultFastOpAllocator::clone",
+            "DefaultFastOpAllocator::fmt",
+            "DefaultFastOpAllocator::serde",
+            "SwitchableFastOpAllocator::new",
+            "SwitchableFastOpAllocator::default",
+            "SwitchableFastOpAllocator::clone",
+            "SwitchableFastOpAllocator::fmt",
+            "SwitchableFastOpAllocator::serde",
+        ]);
+        // the bounded default pool
+        let mut d = DefaultFastOpAllocator::default();
+        let caps = caps_of(&js(&d));
+        c.ck(caps.is_some(), || format!("snapshot of the default allocator has an unexpected shape: {}", js(&d)));
+        all_types(&mut c, "DefaultFastOpAllocator", &mut d, &|a| js(a), true, caps);
+        let d2 = d.clone();
+        c.ck(js(&d2) == js(&d) && format!("{:?}", d2) == format!("{:?}", d) && format!("{:?}", d).contains("DefaultFastOpAllocator"), || "DefaultFastOpAllocator clone / Debug".into());
+        // a snapshot taken while buffers are in flight records the reduced occupancy, and a restore keeps it (C14)
+        let held: Vec<usize> = Factory::<Vec<usize>>::get_instance(&mut d);
+        match json_rt(&d) {
+            Ok(rt) => c.ck(js(&rt) == js(&d) && js(&rt) != js(&d2), || "C14/C18 allocator serde round trip loses the occupancy".into()),
+            Err(e) => c.ck(false, || e),
+        }
+        c.ck(js(&d.clone()) == js(&d), || "C13 allocator clone loses the occupancy".into());
+        d.return_instance(held);
+        c.ck(js(&d) == js(&d2), || "C18 occupancy not restored".into());
+        let _ = verif_log::take();
+        // the public wrapper: in front of a bounded pool / without a pool
+        let mut sp = SwitchableFastOpAllocator::new(Some(DefaultFastOpAllocator::default()));
+        all_types(&mut c, "Switchable(pool)", &mut sp, &|a| js(a), true, caps);
+        c.ck(js(&sp)["alloc"] == js(&DefaultFastOpAllocator::default()), || "Switchable(pool) does not wrap the allocator it was given".into());
+        let mut sn = SwitchableFastOpAllocator::<DefaultFastOpAllocator>::new(None);
+        all_types(&mut c, "Switchable(none)", &mut sn, &|a| js(a), false, Some([20; 9]));
+        let mut sd = SwitchableFastOpAllocator::<DefaultFastOpAllocator>::default();
+        c.ck(js(&sd) == js(&sn) && js(&sd)["alloc"].is_null(), || "SwitchableFastOpAllocator::default is not the pool-less wrapper".into());
+        all_types(&mut c, "Switchable::default", &mut sd, &|a| js(a), false, None);
+        for (name, a) in [("pool", &sp), ("none", &sn)] {
+            let cl = a.clone();
+            c.ck(js(&cl) == js(a) && format!("{:?}", cl) == format!("{:?}", a) && format!("{:?}", a).contains("SwitchableFastOpAllocator"), || format!("Switchable({}) clone / Debug", name));
+            match json_rt(a) {
+                Ok(rt) => c.ck(js(&rt) == js(a), || format!("C14 Switchable({}) serde", name)),
+                Err(e) => c.ck(false, || e),
+            }
+        }
+        // the containers forward to their allocator
+        let mut m = FastOps::new_from_nvars(3);
+        all_types(&mut c, "FastOps", &mut m, &|a| alloc_snap(a), true, caps);
+        let mut mp = FastOpsTemplate::<FastOp, SwitchableFastOpAllocator>::new_from_nvars_and_nbonds_and_alloc(3, Some(2), SwitchableFastOpAllocator::new(Some(Default::default())));
+        all_types(&mut c, "FastOps<Switchable(pool)>", &mut mp, &|a| alloc_snap(a), true, caps);
+        let mut mn = FastOpsTemplate::<FastOp, SwitchableFastOpAllocator>::new_from_nvars_and_nbonds_and_alloc(3, None, SwitchableFastOpAllocator::new(None));
+        all_types(&mut c, "FastOps<Switchable(none)>", &mut mn, &|a| alloc_snap(a), false, None);
+        // Reset
+        hit("Reset::reset");
+        let mut v = vec![1usize, 2, 3];
+        Reset::reset(&mut v);
+        let mut hp: BinaryHeap<Reverse<usize>> = BinaryHeap::new();
+        hp.push(Reverse(2));
+        Reset::reset(&mut hp);
+        let mut bc: BondContainer<usize> = Default::default();
+        bc.dirty();
+        Reset::reset(&mut bc);
+        c.ck(v.is_empty() && hp.is_empty() && bc.empty(), || "C18 Reset::reset leaves data behind".into());
+        c.ck(v.verif_is_clean() && hp.verif_is_clean() && bc.verif_is_clean(), || "C18 verif_is_clean after reset".into());
+        case(round == 0, "c18 factory-surface all-types", c.done());
+    }
+}
+fn mode_c03(r: &mut SplitMix64, n: usize) {
+    for _ in 0..n {
+        let mut bc: BondContainer<usize> = Default::default();
+        let mut naive: Vec<(usize, f64)> = vec![];
+        let mut maplen = 0usize;
+        let mut trace: Vec<String> = vec![];
+        let mut c = Chk::new();
+        hits(&["BondContainer::default", "BondContainer::clone", "BondContainer::fmt", "BondContainer::serde"]);
+        let steps = r.range(10, 60);
+        for _ in 0..steps {
+            let k = r.below(8) as usize;
+            match r.below(10) {
+                0..=4 => {
+                    let w = *r.pick(&[0.0, 0.25, 0.5, 1.0, 2.0, 0.125]);
+                    trace.push(format!("i{}:{}", k, rat(w)));
+                    let new = bc.insert(k, w);
+                    let pos = naive.iter().position(|x| x.0 == k);
+                    c.eq("insert returns `is new`", &new, &pos.is_none());
+                    match pos {
+                        Some(i) => naive[i].1 = w,
+                        None => naive.push((k, w)),
+                    }
+                    maplen = maplen.max(k + 1);
+                }
+                5..=7 => {
+                    if k < maplen {
+                        trace.push(format!("r{}", k));
+                        let was = bc.remove(&k);
+                        let pos = naive.iter().position(|x| x.0 == k);
+                        c.eq("remove returns `was present`", &was, &pos.is_some());
+                        if let Some(i) = pos {
+                            naive.swap_remove(i);
+                        }
+                    }
+                }
+                8 => {
+                    if r.chance(1, 3) {
+                        trace.push("c".into());
+                        bc.clear();
+                        naive.clear();
+                    }
+                }
+                _ => {
+                    let total: f64 = naive.iter().map(|x| x.1).sum();
+                    if total > 0.0 {
+                        let w = r.next();
+                        trace.push(format!("g{}", w));
+                        let mut rec = RecRng::scripted(vec![w], 1);
+                        let got = bc.get_random(&mut rec).cloned();
+                        // rand 0.8 f64 range: ((w >> 12) / 2^52) * (high - low) + low
+                        let mut p = ((w >> 12) as f64 / (1u64 << 52) as f64) * total;
+                        let mut e = None;
+                        for kw in naive.iter() {
+                            p -= kw.1;
+                            if p <= 0.0 && kw.1 > 0.0 {
+                                e = Some(*kw);
+                                break;
+                            }
+                        }
+                        c.eq("C03 get_random picks by the cumulative walk, never a zero-weight entry", &got, &e);
+                        c.eq("get_random draws one word", &rec.log.len(), &1);
+                    } else if naive.is_empty() {
+                        let mut rec = RecRng::new(1);
+                        c.ck(bc.get_random(&mut rec).is_none() && rec.log.is_empty(), || "get_random on an empty container".into());
+                    }
+                }
+            }
+            // observers against the naive list
+            c.eq("len", &bc.len(), &naive.len());
+            c.eq("is_empty", &bc.is_empty(), &naive.is_empty());
+            c.eq("C03 total weight = sum of weights", &bc.get_total_weight(), &naive.iter().map(|x| x.1).sum::<f64>());
+            c.eq("iter order", &bc.iter().cloned().collect::<Vec<_>>(), &naive);
+            for q in 0..10usize {
+                let e = naive.iter().find(|x| x.0 == q).map(|x| x.1);
+                c.eq(&format!("contains({})", q), &bc.contains(&q), &e.is_some());
+                c.eq(&format!("get_weight({})", q), &bc.get_weight(&q), &e);
+            }
+            // representation invariant (BC.Inv): map is the inverse of keys, weights non-negative, total = sum
+            let j = js(&bc);
+            let (map, keys) = (j["map"].as_array().cloned().unwrap_or_default(), j["keys"].as_array().cloned().unwrap_or_default());
+            for (i, kw) in keys.iter().enumerate() {
+                let key = kw[0].as_u64().unwrap() as usize;
+                c.ck(map.get(key).and_then(|x| x.as_u64()) == Some(i as u64), || format!("C03 BC.Inv: keys[{}] = {} but map[{}] = {:?}", i, key, key, map.get(key)));
+                c.ck(kw[1].as_f64().map(|w| w >= 0.0).unwrap_or(false), || "C03 BC.Inv: negative weight".into());
+            }
+            for (key, a) in map.iter().enumerate() {
+                if let Some(i) = a.as_u64() {
+                    c.ck(keys.get(i as usize).map(|kw| kw[0].as_u64() == Some(key as u64)).unwrap_or(false), || format!("C03 BC.Inv: map[{}] = {} points to another key", key, i));
+                }
+            }
+            c.eq("map never shrinks", &map.len(), &maplen);
+            if !c.errs.is_empty() {
+                break;
+            }
+        }
+        // copies
+        let cl = bc.clone();
+        c.ck(js(&cl) == js(&bc) && format!("{:?}", cl) == format!("{:?}", bc) && format!("{:?}", bc).contains("BondContainer"), || "BondContainer clone / Debug".into());
+        match json_rt(&bc) {
+            Ok(mut rt) => {
+                c.ck(js(&rt) == js(&bc), || "C14 BondContainer serde round trip".into());
+                let mut orig = bc.clone();
+                c.ck(rt.insert(2, 0.75) == orig.insert(2, 0.75) && js(&rt) == js(&orig), || "C14 restored BondContainer behaves differently".into());
+            }
+            Err(e) => c.ck(false, || e),
+        }
+        let d: BondContainer<usize> = Default::default();
+        c.ck(d.empty() && js(&d)["map"].as_array().map(|m| m.is_empty()).unwrap_or(false), || "BondContainer::default is not empty".into());
+        case(true, &format!("c03 bondcontainer {}", trace.join(",")), c.done());
+    }
+}
+
 // @@NEXT@@
+
+/// a library panic outside an individually guarded call still becomes a failing case (never a crash of the bin)
+fn guarded(what: &str, f: impl FnOnce()) {
+    if let Err(e) = catch(f) {
+        case(true, &format!("{} aborted", what), Err(format!("the library panicked outside an individually guarded call: {}", e)));
+    }
+}
 
 fn main() {
     quiet_panics();
     let a = args();
-    let scale = if a.thorough { 6 } else { 1 };
-    let modes: Vec<&str> = if a.mode == "all" {
-        vec!["c01", "c03", "c04", "c06", "c07", "c08", "c09", "c10", "c11", "c12", "c13", "c17", "c18", "c19"]
-    } else {
-        vec![a.mode.as_str()]
-    };
-    for (k, m) in modes.iter().enumerate() {
-        // fixed per-mode seed derived from --seed
-        let tag = m.bytes().fold(0u64, |h, b| h.wrapping_mul(131).wrapping_add(b as u64));
-        let mut r = SplitMix64::new(a.seed.wrapping_mul(0x9E37_79B9_7F4A_7C15).wrapping_add(tag).wrapping_add(k as u64 * 0));
-        match *m {
-            "c01" => mode_c01(&mut r, 10 * scale),
-            "c04" => mode_c04(&mut r, 10 * scale),
-            "c19" => mode_c19(&mut r, 12 * scale),
-            other => {
-                eprintln!("unknown mode {}", other);
-                std::process::exit(2);
-            }
+    let scale = if a.thorough { 40 } else { 6 };
+    let table: Vec<(&str, fn(&mut SplitMix64, usize), usize)> = vec![
+        ("c01", mode_c01, 10),
+        ("c03", mode_c03, 12),
+        ("c04", mode_c04, 10),
+        ("c06", mode_c06, 8),
+        ("c07", mode_c07, 40),
+        ("c08", mode_c08, 8),
+        ("c09", mode_c09, 12),
+        ("c10", mode_c10, 4),
+        ("c11", mode_c11, 10),
+        ("c12", mode_c12, 10),
+        ("c13", mode_c13, 8),
+        ("c17", mode_c17, 16),
+        ("c18", mode_c18, 1),
+        ("c19", mode_c19, 12),
+    ];
+    if a.mode == "partemp1" {
+        mode_partemp1();
+        flush_cov();
+        return;
+    }
+    if a.mode == "nthwit" {
+        mode_nthwit();
+        flush_cov();
+        return;
+    }
+    let mut known = false;
+    for (name, f, reps) in table.iter() {
+        if a.mode != "all" && a.mode != *name {
+            continue;
         }
+        known = true;
+        // fixed per-mode seed derived from --seed
+        let tag = name.bytes().fold(0u64, |h, b| h.wrapping_mul(131).wrapping_add(b as u64));
+        let mut r = SplitMix64::new(SplitMix64::new(a.seed.wrapping_mul(0x2545_F491_4F6C_DD1D) ^ tag.wrapping_mul(0x9E6C_63D0_676A_9A99)).next());
+        let reps = if *name == "c18" { 1 + a.thorough as usize } else { reps * scale };
+        for k in 0..reps {
+            // every repetition is one guarded scenario
+            guarded(&format!("{} scenario {}", name, k), || f(&mut r, 1));
+        }
+    }
+    if !known {
+        eprintln!("unknown mode {}", a.mode);
+        std::process::exit(2);
     }
     flush_cov();
 }
